@@ -7,6 +7,11 @@
 //! *directly from the whitelist contract* before each mint and hands it to the model as the `View` witness;
 //! payment / supply / clock preconditions are computed from the minter's own queries (`pre`, `started`).
 //! The model then decides ok/err and every counter; the monitors transcribe the property independently.
+//!
+//! Round 3: output lines are `primary ## drift`. `primary` = ok/err + `lim wl mc mw coh` (what C03 constrains, observed
+//! through QUERIES only); drift = the gate bits `g=` (clock / price / supply predictions — other properties' business),
+//! raw storage dumps of the counter maps (layout) and token ownership. `res=` tells the model what the real contract
+//! did, so that a wrong gate prediction becomes DRIFT instead of a disagreement (see Driver/C03.lean).
 use lp_harness::minters::*;
 use lp_harness::world::{addr, addr_id};
 use lp_harness::*;
@@ -75,9 +80,169 @@ fn build_tree<H: Hasher>(leaves: Vec<(u64, u32, String)>) -> Tree {
     Tree { leaves, root, proofs }
 }
 
+/// decoy leaves a careless whitelist admin might have in the tree: strings that are NOT `stage‖sender‖allocation` of anybody
+/// but would verify for everybody if a minter dropped the sender from the leaf it builds (member id 0 = nobody)
+const DECOY_ALLOC: u64 = 7;
+fn decoy_leaves(stage: Option<u64>) -> Vec<(u64, u32, String)> {
+    let st = stage.map(|s| s.to_string()).unwrap_or_default();
+    vec![(0, 0, format!("{st}{DECOY_ALLOC}")), (0, 0, format!("{st}"))].into_iter().filter(|l| !l.2.is_empty()).collect()
+}
+
+fn bytes_csv(s: &str) -> String {
+    if s.is_empty() {
+        return "-".into();
+    }
+    s.bytes().map(|b| b.to_string()).collect::<Vec<_>>().join(",")
+}
+
 fn leaf_string(stage: Option<u64>, who: u64, alloc: Option<u64>) -> String {
     // exactly the minter's format!: stage ‖ sender ‖ allocation, each part optional
     format!("{}{}{}", stage.map(|s| s.to_string()).unwrap_or_default(), addr(who), alloc.map(|a| a.to_string()).unwrap_or_default())
+}
+
+// ------------------------------------------------------------------------------------------------ message surface (run time)
+
+/// the variants the model has an operation for
+const HANDLED: [&str; 6] = ["mint", "mint_to", "mint_for", "purge", "update_per_address_limit", "set_whitelist"];
+/// variants known when this check was written (none of them may move anything C03 owns; they are sent as `other` ops)
+const KNOWN_OTHER: [&str; 8] = ["shuffle", "burn_remaining", "update_mint_price", "update_start_time", "update_start_trading_time", "update_discount_price", "remove_discount_price", "update_end_time"];
+
+fn known_fields(variant: &str) -> &'static [&'static str] {
+    match variant {
+        "mint" => &["stage", "proof_hashes", "allocation"],
+        "mint_to" => &["recipient"],
+        "mint_for" => &["token_id", "recipient"],
+        "update_per_address_limit" => &["per_address_limit"],
+        "set_whitelist" => &["whitelist"],
+        _ => &[],
+    }
+}
+
+fn exec_schema(kind: MinterKind) -> Value {
+    use cosmwasm_schema::schema_for;
+    let root = match kind {
+        MinterKind::Vending => serde_json::to_value(schema_for!(vending_minter::msg::ExecuteMsg)),
+        MinterKind::VendingFeatured => serde_json::to_value(schema_for!(vending_minter_featured::msg::ExecuteMsg)),
+        MinterKind::VendingFlex => serde_json::to_value(schema_for!(vending_minter_wl_flex::msg::ExecuteMsg)),
+        MinterKind::VendingFlexFeatured => serde_json::to_value(schema_for!(vending_minter_wl_flex_featured::msg::ExecuteMsg)),
+        MinterKind::VendingMerkle => serde_json::to_value(schema_for!(vending_minter_merkle_wl::msg::ExecuteMsg)),
+        MinterKind::VendingMerkleFeatured => serde_json::to_value(schema_for!(vending_minter_merkle_wl_featured::msg::ExecuteMsg)),
+        MinterKind::OpenEdition => serde_json::to_value(schema_for!(open_edition_minter::msg::ExecuteMsg)),
+        MinterKind::OpenEditionFlex => serde_json::to_value(schema_for!(open_edition_minter_wl_flex::msg::ExecuteMsg)),
+        MinterKind::OpenEditionMerkle => serde_json::to_value(schema_for!(open_edition_minter_merkle_wl::msg::ExecuteMsg)),
+        _ => Ok(Value::Null),
+    };
+    root.unwrap_or(Value::Null)
+}
+
+/// (variant name, schema of its payload) for every variant of the enum schema
+fn schema_variants(root: &Value) -> Vec<(String, Value)> {
+    let mut out = vec![];
+    for alt in root["oneOf"].as_array().cloned().unwrap_or_default().iter().chain(root["anyOf"].as_array().cloned().unwrap_or_default().iter()) {
+        if let Some(names) = alt["enum"].as_array() {
+            // unit variants written as plain strings
+            for n in names {
+                if let Some(n) = n.as_str() {
+                    out.push((n.to_string(), Value::Null));
+                }
+            }
+            continue;
+        }
+        if let Some(props) = alt["properties"].as_object() {
+            for (k, v) in props {
+                out.push((k.clone(), v.clone()));
+            }
+        }
+    }
+    out
+}
+
+/// a minimal JSON value accepted by `node` (all required fields, nothing optional); `hint` = the field name it is for
+fn minimal_value(node: &Value, defs: &Value, hint: &str, now: u64, depth: u32) -> Value {
+    if depth > 8 || node.is_null() {
+        return Value::Null;
+    }
+    if let Some(r) = node["$ref"].as_str() {
+        let name = r.rsplit('/').next().unwrap_or("");
+        return match name {
+            "Timestamp" | "Uint64" => json!((now + 2 * U).to_string()),
+            "Uint128" | "Uint256" => json!("1"),
+            "Decimal" => json!("0.1"),
+            "Addr" => json!(addr(22)),
+            _ => minimal_value(&defs[name], defs, hint, now, depth + 1),
+        };
+    }
+    for key in ["allOf", "oneOf"] {
+        if let Some(a) = node[key].as_array() {
+            if let Some(f) = a.first() {
+                return minimal_value(f, defs, hint, now, depth + 1);
+            }
+        }
+    }
+    if let Some(a) = node["anyOf"].as_array() {
+        // Option<T>: take null if offered
+        if a.iter().any(|x| x["type"] == "null") {
+            return Value::Null;
+        }
+        if let Some(f) = a.first() {
+            return minimal_value(f, defs, hint, now, depth + 1);
+        }
+    }
+    if let Some(e) = node["enum"].as_array() {
+        return e.first().cloned().unwrap_or(Value::Null);
+    }
+    let ty = match &node["type"] {
+        Value::String(t) => t.clone(),
+        Value::Array(ts) => {
+            if ts.iter().any(|t| t == "null") {
+                return Value::Null;
+            }
+            ts.first().and_then(|t| t.as_str()).unwrap_or("object").to_string()
+        }
+        _ => "object".to_string(),
+    };
+    match ty.as_str() {
+        "integer" | "number" => match hint {
+            "price" => json!(PUBLIC_PRICE as u64),
+            "per_address_limit" => json!(2),
+            _ => json!(1),
+        },
+        "string" => json!(addr(22)),
+        "boolean" => json!(false),
+        "array" => json!([]),
+        "null" => Value::Null,
+        _ => {
+            let mut o = serde_json::Map::new();
+            for r in node["required"].as_array().cloned().unwrap_or_default() {
+                if let Some(k) = r.as_str() {
+                    o.insert(k.to_string(), minimal_value(&node["properties"][k], defs, k, now, depth + 1));
+                }
+            }
+            Value::Object(o)
+        }
+    }
+}
+
+/// like `minimal_value` but never `null` (used to poke an unknown OPTIONAL field of a handled variant)
+fn nonnull_value(node: &Value, defs: &Value, hint: &str, now: u64) -> Value {
+    if let Some(a) = node["anyOf"].as_array() {
+        if let Some(f) = a.iter().find(|x| x["type"] != "null") {
+            return nonnull_value(f, defs, hint, now);
+        }
+    }
+    if let Value::Array(ts) = &node["type"] {
+        if let Some(t) = ts.iter().find(|t| *t != "null") {
+            let mut n = node.clone();
+            n["type"] = t.clone();
+            return nonnull_value(&n, defs, hint, now);
+        }
+    }
+    let v = minimal_value(node, defs, hint, now, 0);
+    if v == json!(1) {
+        json!(2)
+    } else {
+        v
+    }
 }
 
 // ------------------------------------------------------------------------------------------------ whitelist specs
@@ -144,6 +309,34 @@ struct WlInfo {
     price: u128,
     stages: Vec<StageSpec>,
     trees: Vec<Tree>,
+    /// GHOST (what the harness itself ever sent to this whitelist, successful or not — an upper bound that does not depend on
+    /// any answer of the whitelist): addresses it ever named as members, the largest per-address limit it ever set on any
+    /// stage, the largest flex mint_count it ever gave each address
+    ever_member: BTreeSet<u64>,
+    max_pal: u64,
+    max_cnt: BTreeMap<u64, u64>,
+}
+
+impl WlInfo {
+    /// upper bound of what `who` can ever be entitled to on this whitelist, from the harness' own bookkeeping
+    fn ghost_bound(&self, who: u64) -> u64 {
+        if is_merkle_wl(self.kind) {
+            u64::MAX // the harness' own trees are used instead (tree_allocation)
+        } else if is_flex_wl(self.kind) {
+            *self.max_cnt.get(&who).unwrap_or(&0)
+        } else if self.ever_member.contains(&who) {
+            self.max_pal
+        } else {
+            0
+        }
+    }
+    fn ghost_note_members(&mut self, ms: &[(u64, u32)]) {
+        for (a, c) in ms {
+            self.ever_member.insert(*a);
+            let e = self.max_cnt.entry(*a).or_insert(0);
+            *e = (*e).max(*c as u64);
+        }
+    }
 }
 
 struct MinterInfo {
@@ -151,9 +344,11 @@ struct MinterInfo {
     coll: String,
     kind: MinterKind,
     ntok: Option<u32>,
+    /// the account the harness made admin (creator) — known independently of any query
+    admin: u64,
 }
 
-/// What the harness read from the whitelist before a mint (the model's `View`) plus bookkeeping for the monitors.
+/// What the harness read from the whitelist before a mint (the model's `Oracle`) plus bookkeeping for the monitors.
 #[derive(Clone, Debug, Default)]
 struct View {
     attached: Option<u64>,
@@ -165,10 +360,12 @@ struct View {
     mcfg: bool,
     sid: u64,
     slim: Option<u64>,
-    /// monitors only (never sent to the model): what the list-based tiered whitelist's OWN per-stage state says about the
-    /// sender in the stage the mint will be booked under (`StageMemberInfo{stage_id: sid-1}`; time-independent, unlike
-    /// `Config{}` / `HasMember{}` which go through the "active stage" helpers)
+    /// what the list-based tiered whitelist's OWN per-stage state says about the sender in the stage the mint will be booked
+    /// under (`StageMemberInfo{stage_id: sid-1}`; time-independent, unlike `Config{}` / `HasMember{}` which go through the
+    /// "active stage" helpers). Sent to the model as `se=` (coherence check) and used by the over-entitlement monitor.
     stage_ent: Option<u64>,
+    /// the leaf string the harness asked the whitelist about (`HasMember{member: leaf, proof_hashes}`), if the message has a proof
+    lq: Option<String>,
 }
 
 // ------------------------------------------------------------------------------------------------ the SUT
@@ -187,7 +384,10 @@ struct Mon {
     stage_mints: BTreeMap<(u64, u64), u64>,
     /// tokens received per address
     tokens: BTreeMap<u64, u64>,
+    /// a Purge has succeeded; the two snapshots are `initiated` / `initiated_pub` at the LAST successful purge
     purged: bool,
+    at_purge: BTreeMap<u64, u64>,
+    at_purge_pub: BTreeMap<u64, u64>,
 }
 
 struct S {
@@ -196,13 +396,16 @@ struct S {
     wls: BTreeMap<u64, WlInfo>,
     minter: Option<MinterInfo>,
     mon: Mon,
-    minted_ids: BTreeSet<u64>,
     pending: Option<(String, String)>,
     /// discovered pairing table (mk idx, wl idx) -> level, filled by `compat` lines
     table: BTreeMap<(usize, usize), u64>,
     /// successful tiered-whitelist mints at which the active-stage view (Config/HasMember) and the booked stage's own
     /// record (StageMemberInfo) named different entitlements (diagnostic; the monitor uses the smaller one)
     mon_incoherent: u64,
+    /// successful whitelist mints at which the whitelist's answers granted MORE than the harness ever sent to it (diagnostic)
+    mon_ghost_tighter: u64,
+    /// ExecuteMsg JSON schemas per minter kind index (run-time enumeration of the message surface)
+    schemas: BTreeMap<usize, Value>,
 }
 
 fn jn(v: &Value) -> Option<u64> {
@@ -211,7 +414,7 @@ fn jn(v: &Value) -> Option<u64> {
 
 impl S {
     fn new() -> S {
-        S { w: None, univ: vec![], wls: BTreeMap::new(), minter: None, mon: Mon::default(), minted_ids: BTreeSet::new(), pending: None, table: BTreeMap::new(), mon_incoherent: 0 }
+        S { w: None, univ: vec![], wls: BTreeMap::new(), minter: None, mon: Mon::default(), pending: None, table: BTreeMap::new(), mon_incoherent: 0, mon_ghost_tighter: 0, schemas: BTreeMap::new() }
     }
     fn world(&mut self) -> &mut World {
         self.w.as_mut().expect("case not begun")
@@ -226,26 +429,40 @@ impl S {
     }
 
     // ---------------------------------------------------------------- whitelist creation
-    fn make_wl(w: &mut World, kind: WlKind, admin: u64, ml: u32, price: u128, stages: &[StageSpec], leaf_stage: bool) -> Result<WlInfo, String> {
+    /// `decoys`: Merkle kinds get extra non-member leaves (see `decoy_leaves`); `pad`: that many extra members (ids 100..) are
+    /// appended to stage 0 (lists beyond the 25 / 100 pagination sizes); real members keep their indices.
+    #[allow(clippy::too_many_arguments)]
+    fn make_wl(w: &mut World, kind: WlKind, admin: u64, ml: u32, price: u128, stages: &[StageSpec], leaf_stage: bool, decoys: bool, pad: u64) -> Result<WlInfo, String> {
         let mut trees = vec![];
         let mut wst = vec![];
         for (j, s) in stages.iter().enumerate() {
+            let mut members = s.members.clone();
+            if j == 0 {
+                for k in 0..pad {
+                    members.push((100 + k, 1));
+                }
+            }
             let mut root = String::new();
             if is_merkle_wl(kind) {
-                let leaves: Vec<(u64, u32, String)> = s
-                    .members
-                    .iter()
-                    .map(|(a, c)| (*a, *c, leaf_string(if leaf_stage { Some(j as u64 + 1) } else { None }, *a, if *c > 0 { Some(*c as u64) } else { None })))
-                    .collect();
+                let st = if leaf_stage { Some(j as u64 + 1) } else { None };
+                let mut leaves: Vec<(u64, u32, String)> = members.iter().map(|(a, c)| (*a, *c, leaf_string(st, *a, if *c > 0 { Some(*c as u64) } else { None }))).collect();
+                if decoys {
+                    leaves.extend(decoy_leaves(st));
+                }
                 let t = if kind == WlKind::Merkle { build_tree::<SortSha256>(leaves) } else { build_tree::<SortBlake16>(leaves) };
                 root = t.root.clone();
                 trees.push(t);
             }
-            wst.push(WlStage { start: s.start, end: s.end, mint_price: (0, price), per_address_limit: s.pal, mint_count_limit: s.mcl, members: s.members.clone(), merkle_root: root });
+            wst.push(WlStage { start: s.start, end: s.end, mint_price: (0, price), per_address_limit: s.pal, mint_count_limit: s.mcl, members, merkle_root: root });
         }
         let args = WlArgs { admin, member_limit: ml, admins_mutable: true, whale_cap: None, stages: wst };
         let a = w.new_whitelist(kind, &args)?;
-        Ok(WlInfo { addr: a, kind, admin, price, stages: stages.to_vec(), trees })
+        let mut info = WlInfo { addr: a, kind, admin, price, stages: stages.to_vec(), trees, ever_member: BTreeSet::new(), max_pal: 0, max_cnt: BTreeMap::new() };
+        for s in stages {
+            info.max_pal = info.max_pal.max(s.pal as u64);
+            info.ghost_note_members(&s.members);
+        }
+        Ok(info)
     }
 
     // ---------------------------------------------------------------- reading the whitelist (the View witness)
@@ -282,6 +499,7 @@ impl S {
         if let Some(ph) = self.proof_hashes(proof) {
             let leaf = leaf_string(stage, sender, alloc);
             v.leaf = w.query(wa, &json!({"has_member":{"member": leaf, "proof_hashes": ph}})).ok().and_then(|r| r["has_member"].as_bool()).unwrap_or(false);
+            v.lq = Some(leaf);
         }
         v.mcnt = w.query(wa, &json!({"member":{"member": addr(sender)}})).ok().and_then(|r| jn(&r["mint_count"])).unwrap_or(0);
         v.sid = w.query(wa, &json!({"active_stage_id":{}})).ok().and_then(|r| jn(&r)).unwrap_or(0);
@@ -333,8 +551,10 @@ impl S {
     }
 
     // ---------------------------------------------------------------- observations
-    fn obs(&self) -> String {
-        let (Some(m), Some(w)) = (&self.minter, &self.w) else { return "none".into() };
+    /// (primary, drift): primary = what C03 constrains, read through queries only (`Config`, `MintCount`);
+    /// drift = raw storage dumps of the counter maps (storage layout) and token ownership (C01's business)
+    fn obs_parts(&self) -> Option<(String, String)> {
+        let (Some(m), Some(w)) = (&self.minter, &self.w) else { return None };
         let cfg = self.minter_cfg();
         let lim = jn(&cfg["per_address_limit"]).map(|x| x.to_string()).unwrap_or("?".into());
         let wl = match cfg["whitelist"].as_str() {
@@ -352,18 +572,27 @@ impl S {
         }
         let (maps, tot) = self.raw_counters();
         let own: Vec<(u64, u64)> = self.univ.iter().map(|a| (*a, self.tokens_of(*a))).filter(|p| p.1 != 0).collect();
-        format!(
-            "lim={lim} wl={wl} mc={} mw={} pub={} wlm={} fs={} ss={} ts={} tot={},{},{} own={}",
-            fmt_pairs(&mc), if m.kind.is_flex() { fmt_pairs(&mw) } else { "-".into() },
-            fmt_pairs(&maps[0]), fmt_pairs(&maps[1]), fmt_pairs(&maps[2]), fmt_pairs(&maps[3]), fmt_pairs(&maps[4]),
-            tot[0], tot[1], tot[2], fmt_pairs(&own)
-        )
+        let primary = format!("lim={lim} wl={wl} mc={} mw={}", fmt_pairs(&mc), if m.kind.is_flex() { fmt_pairs(&mw) } else { "-".into() });
+        let drift = format!(
+            "pub={} wlm={} fs={} ss={} ts={} tot={},{},{} own={}",
+            fmt_pairs(&maps[0]), fmt_pairs(&maps[1]), fmt_pairs(&maps[2]), fmt_pairs(&maps[3]), fmt_pairs(&maps[4]), tot[0], tot[1], tot[2], fmt_pairs(&own)
+        );
+        Some((primary, drift))
+    }
+    /// one canonical answer line: `coh` = coherence verdict (`-` = not applicable), `g` = the gate bits the harness predicted
+    fn out(&self, ok: bool, coh: &str, g: &str) -> String {
+        let w = if ok { "ok" } else { "err" };
+        match self.obs_parts() {
+            None => format!("{w} none ## g={g}"),
+            Some((p, d)) => format!("{w} {p} coh={coh} ## g={g} {d}"),
+        }
     }
     fn tokens_of(&self, a: u64) -> u64 {
         let (Some(m), Some(w)) = (&self.minter, &self.w) else { return 0 };
         w.query(&m.coll, &json!({"tokens":{"owner": addr(a), "limit": 100}})).ok().and_then(|r| r["tokens"].as_array().map(|x| x.len() as u64)).unwrap_or(0)
     }
-    /// raw dumps of MINTER_ADDRS, WHITELIST_MINTER_ADDRS, WHITELIST_{FS,SS,TS}_MINTER_ADDRS and the three stage totals
+    /// raw dumps of MINTER_ADDRS, WHITELIST_MINTER_ADDRS, WHITELIST_{FS,SS,TS}_MINTER_ADDRS and the three stage totals.
+    /// DRIFT ONLY (behind ` ## `): depends on the storage key names; no monitor and no verdict looks at it.
     fn raw_counters(&self) -> (Vec<Vec<(u64, u64)>>, [u64; 3]) {
         let mut maps: Vec<Vec<(u64, u64)>> = vec![vec![]; 5];
         let mut tot = [0u64; 3];
@@ -394,6 +623,10 @@ impl S {
     }
 
     // ---------------------------------------------------------------- monitors that look at the whole state
+    /// "until a purge after sell-out clears them, the per-address public and whitelist mint counts the minter reports equal
+    /// the mints that address initiated" — from the harness' OWN count of the successes it saw, and `MintCount` (a query).
+    /// Before any purge: exact. After a purge the property allows the counts to have been cleared, but never to exceed what the
+    /// address initiated in total, nor to miss a mint initiated after the purge.
     fn check_reports(&mut self) {
         let Some(m) = &self.minter else { return };
         let name = m.kind.name();
@@ -404,43 +637,97 @@ impl S {
         for a in self.univ.clone() {
             let toks = self.tokens_of(a);
             let want_t = *self.mon.tokens.get(&a).unwrap_or(&0);
-            if toks != want_t {
+            if toks != want_t && want_t <= 100 {
                 bad = Some((format!("{name}/mint/tokens-mismatch"), format!("address {a} holds {toks} tokens, {want_t} successful mints/airdrops went to it")));
                 break;
-            }
-            if self.mon.purged {
-                continue;
             }
             let r = w.query(&maddr, &json!({"mint_count":{"address": addr(a)}})).unwrap_or(Value::Null);
             let c = jn(&r["count"]).unwrap_or(999_999);
             let wc = jn(&r["whitelist_count"]).unwrap_or(0);
             let init = *self.mon.initiated.get(&a).unwrap_or(&0);
             let init_pub = *self.mon.initiated_pub.get(&a).unwrap_or(&0);
-            let ok = if flex { c == init_pub && wc == init - init_pub } else { c == init };
-            if !ok {
-                bad = Some((format!("{name}/query/mint-count-mismatch"), format!("MintCount({a}) reports count={c} whitelist_count={wc}; the address initiated {init} successful mints ({init_pub} public/airdrop) and no purge happened")));
-                break;
-            }
-        }
-        if bad.is_none() && !self.mon.purged {
-            let (maps, tot) = self.raw_counters();
-            for a in self.univ.clone() {
-                let g = |i: usize| maps[i].iter().find(|p| p.0 == a).map(|p| p.1).unwrap_or(0);
-                let init = *self.mon.initiated.get(&a).unwrap_or(&0);
-                let init_pub = *self.mon.initiated_pub.get(&a).unwrap_or(&0);
-                if g(0) != init_pub || g(1) + g(2) + g(3) + g(4) != init - init_pub {
-                    bad = Some((format!("{name}/storage/counter-mismatch"), format!("raw counters of {a}: public={} whitelist={}+{}+{}+{}; counted successes public/airdrop={init_pub} whitelist={}", g(0), g(1), g(2), g(3), g(4), init - init_pub)));
+            if !self.mon.purged {
+                let ok = if flex { c == init_pub && wc == init - init_pub } else { c == init };
+                if !ok {
+                    bad = Some((format!("{name}/query/mint-count-mismatch"), format!("MintCount({a}) reports count={c} whitelist_count={wc}; the address initiated {init} successful mints ({init_pub} public/airdrop) and no purge happened")));
                     break;
                 }
-            }
-            let st: u64 = self.mon.stage_mints.iter().filter(|(k, _)| k.1 != 0).map(|(_, v)| *v).sum();
-            if bad.is_none() && tot.iter().sum::<u64>() != st {
-                bad = Some((format!("{name}/storage/stage-total-mismatch"), format!("stage totals {:?} do not add up to the {st} successful tiered-stage mints", tot)));
+            } else {
+                let since = init - *self.mon.at_purge.get(&a).unwrap_or(&0);
+                let since_pub = init_pub - *self.mon.at_purge_pub.get(&a).unwrap_or(&0);
+                let ok = if flex { since_pub <= c && c <= init_pub && (since - since_pub) <= wc && wc <= init - init_pub } else { since <= c && c <= init };
+                if !ok {
+                    bad = Some((format!("{name}/query/mint-count-mismatch-after-purge"), format!("MintCount({a}) reports count={c} whitelist_count={wc}; the address initiated {init} successful mints in total ({init_pub} public/airdrop), {since} of them ({since_pub}) after the last purge")));
+                    break;
+                }
             }
         }
         if let Some((k, wht)) = bad {
             self.flag(k, wht);
         }
+    }
+
+    /// (per_address_limit, attached whitelist address) as the minter's `Config{}` reports them
+    fn cfg_pair(&self) -> Option<(u64, Option<String>)> {
+        self.minter.as_ref()?;
+        let c = self.minter_cfg();
+        Some((jn(&c["per_address_limit"])?, c["whitelist"].as_str().map(String::from)))
+    }
+
+    /// "the limit / attached whitelist only change through the admin's UpdatePerAddressLimit / SetWhitelist", transcribed from what
+    /// the harness SENT: after any other message (any sender, any variant incl. unknown ones, migrate, clock) both must be unchanged
+    fn check_cfg_moved(&mut self, line: &str, before: Option<(u64, Option<String>)>) {
+        let (Some(b), Some(a)) = (before, self.cfg_pair()) else { return };
+        if a == b {
+            return;
+        }
+        let Some(m) = &self.minter else { return };
+        let name = m.kind.name();
+        let op = line.split_whitespace().next().unwrap_or("");
+        let by_admin = kv_u64(line, "sender") == Some(m.admin);
+        let allowed = match op {
+            "setlim" => by_admin && a.1 == b.1 && kv_u64(line, "n") == Some(a.0),
+            "setwl" => by_admin && a.0 == b.0 && kv_u64(line, "wl").and_then(|k| self.wls.get(&k)).map(|i| Some(i.addr.clone()) == a.1).unwrap_or(false),
+            // the admin moving them through a message this check does not know is not a property violation (the model
+            // comparison reports it: `lim` / `wl` are primary observations); anybody else doing so is
+            "other" | "migrate" => by_admin,
+            _ => false,
+        };
+        if !allowed {
+            self.flag(format!("{name}/config/limit-or-whitelist-moved"), format!("per_address_limit / whitelist went from {:?} to {:?} through `{line}`, which is not the admin's UpdatePerAddressLimit / SetWhitelist naming that value", b, a));
+        }
+    }
+
+    /// The entitlement in force for `who` on the attached, active whitelist — from the whitelist's own state and the harness'
+    /// own trees / bookkeeping, never from the message. Returns (whitelist id, stage id (0 = not tiered), entitlement).
+    fn entitlement_in_force(&mut self, v: &View, who: u64, count_diag: bool) -> Option<(u64, u64, u64)> {
+        let wlid = v.attached?;
+        let info = self.wls.get(&wlid)?;
+        let wk = info.kind;
+        let sid = if is_tiered(wk) { v.sid } else { 0 };
+        // per stage for tiered whitelists: the entitlement is the one of the stage the mint is BOOKED under
+        // (a member of stage k only, minting while the whitelist reports stage j's limit, is entitled to stage k's)
+        let from_answers: u64 = if let (true, Some(se)) = (matches!(wk, WlKind::Tiered | WlKind::TieredFlex), v.stage_ent) {
+            let act = if is_flex_wl(wk) { if v.mem { v.mcnt } else { 0 } } else if v.mem { v.wlim } else { 0 };
+            if act != se && count_diag {
+                self.mon_incoherent += 1;
+            }
+            se
+        } else if is_flex_wl(wk) {
+            if v.mem { v.mcnt } else { 0 }
+        } else if is_merkle_wl(wk) {
+            self.tree_allocation(wlid, v.sid, who, v.wlim).unwrap_or(0)
+        } else if v.mem {
+            v.wlim
+        } else {
+            0
+        };
+        // ... and never more than the harness itself ever granted on that whitelist
+        let ghost = self.wls[&wlid].ghost_bound(who);
+        if ghost < from_answers && count_diag {
+            self.mon_ghost_tighter += 1;
+        }
+        Some((wlid, sid, from_answers.min(ghost)))
     }
 
     // ---------------------------------------------------------------- ops
@@ -451,20 +738,22 @@ impl S {
         let ml = kv_u64(line, "ml").unwrap_or(10) as u32;
         let price = kv_u128(line, "price").unwrap_or(60_000_000);
         let ls = kv_bool(line, "ls").unwrap_or(false);
+        let dk = kv_bool(line, "dk").unwrap_or(false);
+        let pad = kv_u64(line, "pad").unwrap_or(0);
         let stages = parse_stages(kv(line, "stages").unwrap_or(""));
-        let r = if stages.is_empty() { Err("no stages".to_string()) } else { Self::make_wl(self.world(), kind, admin, ml, price, &stages, ls) };
+        let r = if stages.is_empty() { Err("no stages".to_string()) } else { Self::make_wl(self.world(), kind, admin, ml, price, &stages, ls, dk, pad) };
         match r {
             Ok(i) => {
                 self.wls.insert(id, i);
-                (format!("{line} res=1"), format!("ok {}", self.obs()))
+                (format!("{line} res=1"), self.out(true, "-", "-"))
             }
-            Err(_) => (format!("{line} res=0"), format!("err {}", self.obs())),
+            Err(_) => (format!("{line} res=0"), self.out(false, "-", "-")),
         }
     }
 
     fn do_wlop(&mut self, line: &str) -> (String, String) {
         let id = kv_u64(line, "wl").unwrap();
-        let Some(info) = self.wls.get(&id).cloned() else { return (format!("{line} res=0"), format!("err {}", self.obs())) };
+        let Some(info) = self.wls.get(&id).cloned() else { return (format!("{line} res=0"), self.out(false, "-", "-")) };
         let j = kv_u64(line, "stage").unwrap_or(0);
         let tiered = is_tiered(info.kind);
         let flex = is_flex_wl(info.kind);
@@ -472,10 +761,16 @@ impl S {
         let msg: Value = match kv(line, "op").unwrap_or("") {
             "pal" => {
                 let n = kv_u64(line, "n").unwrap_or(1);
+                if let Some(g) = self.wls.get_mut(&id) {
+                    g.max_pal = g.max_pal.max(n);
+                }
                 if tiered { json!({"update_stage_config":{"stage_id": j, "per_address_limit": n}}) } else { json!({"update_per_address_limit": n}) }
             }
             "mcl" => json!({"update_stage_config":{"stage_id": j, "mint_count_limit": kv_opt_u64(line, "n").unwrap_or(None)}}),
             "add" => {
+                if let Some(g) = self.wls.get_mut(&id) {
+                    g.ghost_note_members(&members);
+                }
                 let to_add: Vec<Value> = if flex { members.iter().map(|(a, c)| json!({"address": addr(*a), "mint_count": c})).collect() } else { members.iter().map(|(a, _)| json!(addr(*a))).collect() };
                 if tiered { json!({"add_members":{"to_add": to_add, "stage_id": j}}) } else { json!({"add_members":{"to_add": to_add}}) }
             }
@@ -495,6 +790,10 @@ impl S {
                 if !flex {
                     st["per_address_limit"] = json!(kv_u64(line, "pal").unwrap_or(1));
                 }
+                if let Some(g) = self.wls.get_mut(&id) {
+                    g.max_pal = g.max_pal.max(kv_u64(line, "pal").unwrap_or(1));
+                    g.ghost_note_members(&members);
+                }
                 let ms: Vec<Value> = if flex { members.iter().map(|(a, c)| json!({"address": addr(*a), "mint_count": c})).collect() } else { members.iter().map(|(a, _)| json!(addr(*a))).collect() };
                 json!({"add_stage":{"stage": st, "members": ms}})
             }
@@ -502,12 +801,12 @@ impl S {
         };
         let r = self.world().exec(&addr(info.admin), &info.addr, &msg, &[]);
         let ok = r.is_ok();
-        (format!("{line} res={}", ok as u8), format!("{} {}", if ok { "ok" } else { "err" }, self.obs()))
+        (format!("{line} res={}", ok as u8), self.out(ok, "-", "-"))
     }
 
     fn do_create(&mut self, line: &str) -> (String, String) {
         if self.minter.is_some() {
-            return (format!("{line} wlact=0 pre=1"), format!("err {}", self.obs()));
+            return (format!("{line} wlact=0 pre=1 res=0"), self.out(false, "-", "-"));
         }
         let kind = ALL_MINTERS[kv_u64(line, "mk").unwrap() as usize];
         let wl = kv_opt_u64(line, "wl").unwrap();
@@ -541,25 +840,18 @@ impl S {
             w.fund(&addr(admin), 0, p.creation_fee.1);
             w.create_minter(&f, kind, &a)
         })();
-        match res {
-            Ok((m, c)) => {
-                self.minter = Some(MinterInfo { addr: m, coll: c, kind, ntok });
-                (format!("{line} wlact={} pre=1", wlact as u8), format!("ok {}", self.obs()))
-            }
-            Err(_) => (format!("{line} wlact={} pre=1", wlact as u8), format!("err {}", self.obs())),
+        let ok = res.is_ok();
+        if let Ok((m, c)) = res {
+            self.minter = Some(MinterInfo { addr: m, coll: c, kind, ntok, admin });
         }
+        // `pre=1`: the harness only sends creation parameters it believes valid (apart from the whitelist pairing)
+        (format!("{line} wlact={} pre=1 res={}", wlact as u8, ok as u8), self.out(ok, "-", "1"))
     }
 
-    fn record_token(&mut self, res: &cw_multi_test::AppResponse) {
-        for e in &res.events {
-            for at in &e.attributes {
-                if at.key == "token_id" && e.ty == "wasm" {
-                    if let Ok(n) = at.value.parse::<u64>() {
-                        self.minted_ids.insert(n);
-                    }
-                }
-            }
-        }
+    /// has the collection minted token `id`? (a query — no event attribute names involved)
+    fn token_exists(&self, id: u64) -> bool {
+        let (Some(m), Some(w)) = (&self.minter, &self.w) else { return false };
+        w.query(&m.coll, &json!({"owner_of":{"token_id": id.to_string()}})).is_ok()
     }
 
     /// the allocation the whitelist's own tree grants `who` in its active stage (None = no leaf for that address)
@@ -570,14 +862,24 @@ impl S {
         t.leaves.iter().filter(|l| l.0 == who).map(|l| if l.1 > 0 { l.1 as u64 } else { wlim }).max()
     }
 
+    /// a mint / airdrop succeeded although a purge had succeeded before: the purge was not "after sell-out" (vending: nothing
+    /// left to mint; open edition: past the end) and the cleared counters restart the per-address allowance
+    fn note_mint_after_purge(&mut self, what: &str) {
+        if self.mon.purged {
+            let name = self.minter.as_ref().unwrap().kind.name();
+            self.flag(format!("{name}/purge/mint-after-purge"), format!("{what} succeeded after a successful Purge: the purge cleared the per-address counts while minting was still possible"));
+        }
+    }
+
     fn do_mint(&mut self, line: &str) -> (String, String) {
         let sender = kv_u64(line, "sender").unwrap();
         let funds = kv_u128(line, "funds").unwrap_or(0);
         let stage = kv_opt_u64(line, "stage").unwrap_or(None);
         let alloc = kv_opt_u64(line, "alloc").unwrap_or(None);
         let proof = kv(line, "proof").unwrap_or("-").to_string();
+        let sb = bytes_csv(&addr(sender));
         if self.minter.is_none() {
-            return (format!("{line} act=0 mem=0 leaf=0 wlim=0 mcnt=0 mcfg=0 sid=0 slim=- started=0 pre=0"), "err none".into());
+            return (format!("{line} act=0 mem=0 leaf=0 wlim=0 mcnt=0 mcfg=0 sid=0 slim=- se=- sb={sb} lq=- started=0 pre=0 res=0"), self.out(false, "-", "00"));
         }
         let v = self.read_view(sender, stage, &proof, alloc);
         let started = self.now() >= self.start_time();
@@ -605,9 +907,10 @@ impl S {
         let f: Vec<(u64, u128)> = if funds > 0 { vec![(0, funds)] } else { vec![] };
         let r = self.world().exec(&addr(sender), &maddr, &msg, &f);
         let ok = r.is_ok();
-        if let Ok(res) = &r {
-            self.record_token(res);
+        let mut coh = "-";
+        if r.is_ok() {
             let name = kind.name();
+            self.note_mint_after_purge(&format!("a Mint by {sender}"));
             *self.mon.tokens.entry(sender).or_insert(0) += 1;
             *self.mon.initiated.entry(sender).or_insert(0) += 1;
             let wl_phase = v.attached.is_some() && v.act;
@@ -620,28 +923,14 @@ impl S {
                     self.flag(format!("{name}/mint/public-over-limit"), format!("address {sender} completed its public mint no. {n} while the per-address limit in force is {limit_before}"));
                 }
             } else {
-                let wlid = v.attached.unwrap();
+                let (wlid, sid, ent) = self.entitlement_in_force(&v, sender, true).unwrap();
                 let wk = self.wls[&wlid].kind;
-                let sid = if is_tiered(wk) { v.sid } else { 0 };
+                if sid != 0 && v.stage_ent.is_some() {
+                    coh = "1";
+                }
                 let n = self.mon.wl_mints.entry((wlid, sid, sender)).or_insert(0);
                 *n += 1;
                 let n = *n;
-                // entitlement in force, read from the whitelist's own state (never from the message)
-                // per stage for tiered whitelists: the entitlement is the one of the stage the mint is BOOKED under
-                // (a member of stage k only, minting while the whitelist reports stage j's limit, is entitled to stage k's)
-                let ent: u64 = if let (true, Some(se)) = (matches!(wk, WlKind::Tiered | WlKind::TieredFlex), v.stage_ent) {
-                    let act = if is_flex_wl(wk) { if v.mem { v.mcnt } else { 0 } } else if v.mem { v.wlim } else { 0 };
-                    if act != se { self.mon_incoherent += 1; }
-                    se
-                } else if is_flex_wl(wk) {
-                    if v.mem { v.mcnt } else { 0 }
-                } else if is_merkle_wl(wk) {
-                    self.tree_allocation(wlid, v.sid, sender, v.wlim).unwrap_or(0)
-                } else if v.mem {
-                    v.wlim
-                } else {
-                    0
-                };
                 if n > ent {
                     self.flag(format!("{name}/mint/wl-over-entitlement"), format!("address {sender} completed whitelist mint no. {n} on whitelist {wlid} ({:?}, stage {sid}) while its entitlement there is {ent} (message fields: stage={stage:?} allocation={alloc:?} proof={proof})", wk));
                 }
@@ -658,10 +947,11 @@ impl S {
             }
         }
         let wit = format!(
-            " act={} mem={} leaf={} wlim={} mcnt={} mcfg={} sid={} slim={} started={} pre={}",
-            v.act as u8, v.mem as u8, v.leaf as u8, v.wlim, v.mcnt, v.mcfg as u8, v.sid, fmt_opt(&v.slim), started as u8, pre as u8
+            " act={} mem={} leaf={} wlim={} mcnt={} mcfg={} sid={} slim={} se={} sb={sb} lq={} started={} pre={} res={}",
+            v.act as u8, v.mem as u8, v.leaf as u8, v.wlim, v.mcnt, v.mcfg as u8, v.sid, fmt_opt(&v.slim), fmt_opt(&v.stage_ent),
+            v.lq.as_deref().map(bytes_csv).unwrap_or("-".into()), started as u8, pre as u8, ok as u8
         );
-        (format!("{line}{wit}"), format!("{} {}", if ok { "ok" } else { "err" }, self.obs()))
+        (format!("{line}{wit}"), self.out(ok, coh, &format!("{}{}", started as u8, pre as u8)))
     }
 
     fn do_airdrop(&mut self, line: &str, for_id: bool) -> (String, String) {
@@ -669,14 +959,14 @@ impl S {
         let to = kv_u64(line, "to").unwrap();
         let funds = kv_u128(line, "funds").unwrap_or(0);
         if self.minter.is_none() {
-            return (format!("{line} pre=0"), "err none".into());
+            return (format!("{line} pre=0 res=0"), self.out(false, "-", "0"));
         }
         let ntok = self.minter.as_ref().unwrap().ntok.unwrap_or(0) as u64;
         let maddr = self.minter.as_ref().unwrap().addr.clone();
         let mut pre = self.airdrop_price() == Some(funds) && !self.sold_out() && !self.ended();
         let msg = if for_id {
             let id = kv_u64(line, "id").unwrap_or(0);
-            pre = pre && id >= 1 && id <= ntok && !self.minted_ids.contains(&id);
+            pre = pre && id >= 1 && id <= ntok && !self.token_exists(id);
             json!({"mint_for":{"token_id": id, "recipient": addr(to)}})
         } else {
             json!({"mint_to":{"recipient": addr(to)}})
@@ -684,31 +974,31 @@ impl S {
         let f: Vec<(u64, u128)> = if funds > 0 { vec![(0, funds)] } else { vec![] };
         let r = self.world().exec(&addr(sender), &maddr, &msg, &f);
         let ok = r.is_ok();
-        if let Ok(res) = &r {
-            self.record_token(res);
+        if r.is_ok() {
+            self.note_mint_after_purge(&format!("an airdrop by {sender}"));
             *self.mon.tokens.entry(to).or_insert(0) += 1;
             *self.mon.initiated.entry(sender).or_insert(0) += 1;
             *self.mon.initiated_pub.entry(sender).or_insert(0) += 1;
         }
-        (format!("{line} pre={}", pre as u8), format!("{} {}", if ok { "ok" } else { "err" }, self.obs()))
+        (format!("{line} pre={} res={}", pre as u8, ok as u8), self.out(ok, "-", &format!("{}", pre as u8)))
     }
 
     fn do_setlim(&mut self, line: &str) -> (String, String) {
         let sender = kv_u64(line, "sender").unwrap();
         let n = kv_u64(line, "n").unwrap();
         let funds = kv_bool(line, "funds").unwrap_or(false);
-        let Some(m) = &self.minter else { return (line.to_string(), "err none".into()) };
+        let Some(m) = &self.minter else { return (line.to_string(), self.out(false, "-", "-")) };
         let maddr = m.addr.clone();
         let f: Vec<(u64, u128)> = if funds { vec![(0, 1)] } else { vec![] };
         let r = self.world().exec(&addr(sender), &maddr, &json!({"update_per_address_limit":{"per_address_limit": n}}), &f);
-        (line.to_string(), format!("{} {}", if r.is_ok() { "ok" } else { "err" }, self.obs()))
+        (line.to_string(), self.out(r.is_ok(), "-", "-"))
     }
 
     fn do_setwl(&mut self, line: &str) -> (String, String) {
         let sender = kv_u64(line, "sender").unwrap();
         let id = kv_u64(line, "wl").unwrap();
         let funds = kv_bool(line, "funds").unwrap_or(false);
-        let Some(m) = &self.minter else { return (format!("{line} started=0 oldact=0 newact=0 pre=0"), "err none".into()) };
+        let Some(m) = &self.minter else { return (format!("{line} started=0 oldact=0 newact=0 pre=0 res=0"), self.out(false, "-", "00")) };
         let maddr = m.addr.clone();
         let started = self.now() >= self.start_time();
         let w = self.w.as_ref().unwrap();
@@ -723,13 +1013,14 @@ impl S {
         };
         let f: Vec<(u64, u128)> = if funds { vec![(0, 1)] } else { vec![] };
         let r = self.world().exec(&addr(sender), &maddr, &json!({"set_whitelist":{"whitelist": new_addr}}), &f);
-        (format!("{line} started={} oldact={} newact={} pre={}", started as u8, oldact as u8, newact as u8, pre as u8), format!("{} {}", if r.is_ok() { "ok" } else { "err" }, self.obs()))
+        let ok = r.is_ok();
+        (format!("{line} started={} oldact={} newact={} pre={} res={}", started as u8, oldact as u8, newact as u8, pre as u8, ok as u8), self.out(ok, "-", &format!("{}{}", started as u8, pre as u8)))
     }
 
     fn do_purge(&mut self, line: &str) -> (String, String) {
         let sender = kv_u64(line, "sender").unwrap();
         let funds = kv_bool(line, "funds").unwrap_or(false);
-        let Some(m) = &self.minter else { return (format!("{line} pre=0"), "err none".into()) };
+        let Some(m) = &self.minter else { return (format!("{line} pre=0 res=0"), self.out(false, "-", "0")) };
         let maddr = m.addr.clone();
         let kind = m.kind;
         let mintable = self.mintable();
@@ -744,10 +1035,69 @@ impl S {
         };
         let f: Vec<(u64, u128)> = if funds { vec![(0, 1)] } else { vec![] };
         let r = self.world().exec(&addr(sender), &maddr, &json!({"purge":{}}), &f);
-        if r.is_ok() {
+        let ok = r.is_ok();
+        if ok {
             self.mon.purged = true;
+            self.mon.at_purge = self.mon.initiated.clone();
+            self.mon.at_purge_pub = self.mon.initiated_pub.clone();
         }
-        (format!("{line} pre={}", pre as u8), format!("{} {}", if r.is_ok() { "ok" } else { "err" }, self.obs()))
+        (format!("{line} pre={} res={}", pre as u8, ok as u8), self.out(ok, "-", &format!("{}", pre as u8)))
+    }
+
+    // ---------------------------------------------------------------- the rest of the message surface
+    fn schema_of(&mut self, kind: MinterKind) -> Value {
+        self.schemas.entry(kind.idx()).or_insert_with(|| exec_schema(kind)).clone()
+    }
+
+    /// the JSON message for `other v=<variant> [with=<optional field of that variant to set>]`, built from the crate's own
+    /// schema (minimal required arguments); `None` if the variant does not exist on this minter
+    fn variant_msg(&mut self, kind: MinterKind, variant: &str, with: Option<&str>) -> Option<Value> {
+        let root = self.schema_of(kind);
+        let defs = root["definitions"].clone();
+        let now = self.now();
+        let (_, payload) = schema_variants(&root).into_iter().find(|(n, _)| n == variant)?;
+        if payload.is_null() {
+            return Some(json!(variant));
+        }
+        let mut body = minimal_value(&payload, &defs, variant, now, 0);
+        if let (Some(f), Some(o)) = (with, body.as_object_mut()) {
+            let node = payload["properties"][f].clone();
+            o.insert(f.to_string(), nonnull_value(&node, &defs, f, now));
+            // a handled variant keeps its usual arguments
+            if variant == "mint_to" || variant == "mint_for" {
+                o.insert("recipient".into(), json!(addr(24)));
+            }
+        }
+        let mut m = serde_json::Map::new();
+        m.insert(variant.to_string(), body);
+        Some(Value::Object(m))
+    }
+
+    /// any ExecuteMsg variant the model has no operation for (or a handled one with an unknown extra field): nothing C03 owns
+    /// may move — the model treats it as `env`, the monitors (`config/limit-or-whitelist-moved`, `MintCount`, tokens) stay on
+    fn do_other(&mut self, line: &str) -> (String, String) {
+        let sender = kv_u64(line, "sender").unwrap_or(21);
+        let variant = kv(line, "v").unwrap_or("").to_string();
+        let with = kv(line, "with").filter(|x| *x != "-").map(String::from);
+        let funds = kv_u128(line, "funds").unwrap_or(0);
+        let Some(m) = &self.minter else { return (format!("{line} res=0"), self.out(false, "-", "-")) };
+        let (kind, maddr) = (m.kind, m.addr.clone());
+        let Some(msg) = self.variant_msg(kind, &variant, with.as_deref()) else { return (format!("{line} res=0"), self.out(false, "-", "-")) };
+        let f: Vec<(u64, u128)> = if funds > 0 { vec![(0, funds)] } else { vec![] };
+        let r = self.world().exec(&addr(sender), &maddr, &msg, &f);
+        let ok = r.is_ok();
+        (format!("{line} res={}", ok as u8), self.out(ok, "-", "-"))
+    }
+
+    /// `migrate` to the code the minter already runs (the only code the harness has): counters must survive
+    fn do_migrate(&mut self, line: &str) -> (String, String) {
+        let sender = kv_u64(line, "sender").unwrap_or(10);
+        let Some(m) = &self.minter else { return (format!("{line} res=0"), self.out(false, "-", "-")) };
+        let (kind, maddr) = (m.kind, m.addr.clone());
+        let code = self.world().codes.minters[kind.idx()];
+        let r = self.world().migrate(&addr(sender), &maddr, code, &json!({}));
+        let ok = r.is_ok();
+        (format!("{line} res={}", ok as u8), self.out(ok, "-", "-"))
     }
 
     // ---------------------------------------------------------------- discovery of the (minter x whitelist) pairing table
@@ -765,7 +1115,7 @@ impl S {
         } else {
             vec![StageSpec { start: t0 + 1000, end: t0 + 2000, pal: 2, mcl: None, members: vec![(buyer, 2)] }]
         };
-        let Ok(info) = Self::make_wl(&mut w, wk, 11, 10, 60_000_000, &stages, false) else { return 9 };
+        let Ok(info) = Self::make_wl(&mut w, wk, 11, 10, 60_000_000, &stages, false, false, 0) else { return 9 };
         let mut p = w.default_params(mk);
         p.min_mint_price = (0, MIN_PRICE);
         let Ok(f) = w.new_factory(mk.factory(), &p) else { return 9 };
@@ -817,13 +1167,13 @@ impl Sut for S {
         self.wls.clear();
         self.minter = None;
         self.mon = Mon::default();
-        self.minted_ids.clear();
         self.pending = None;
         (header.to_string(), "case".to_string())
     }
 
     fn exec(&mut self, line: &str) -> (String, String) {
         let op = line.split_whitespace().next().unwrap_or("");
+        let cfg_before = self.cfg_pair();
         let r = match op {
             "compat" => {
                 let mk = kv_u64(line, "mk").unwrap() as usize;
@@ -838,7 +1188,7 @@ impl Sut for S {
                 if self.w.is_some() {
                     self.world().set_time(t.max(now));
                 }
-                (line.to_string(), format!("ok {}", self.obs()))
+                (line.to_string(), self.out(true, "-", "-"))
             }
             "newwl" => self.do_newwl(line),
             "wlop" => self.do_wlop(line),
@@ -849,9 +1199,13 @@ impl Sut for S {
             "setlim" => self.do_setlim(line),
             "setwl" => self.do_setwl(line),
             "purge" => self.do_purge(line),
+            "other" => self.do_other(line),
+            "migrate" => self.do_migrate(line),
             _ => (line.to_string(), "bad-op".into()),
         };
+        self.check_cfg_moved(line, cfg_before);
         self.check_reports();
+        // the answer line is computed inside the op; monitors that fired are picked up by `monitor()`
         r
     }
 
@@ -864,10 +1218,21 @@ impl Sut for S {
 
 const ADMIN: u64 = 10;
 const BUYERS: [u64; 4] = [21, 22, 23, 24];
+const C03_MINTERS: usize = 9;
+
+#[derive(Clone)]
+struct WlPlan {
+    id: u64,
+    kind: WlKind,
+    stages: Vec<StageSpec>,
+    ls: bool,
+    dk: bool,
+    pad: u64,
+}
 
 struct Plan {
     mk: MinterKind,
-    wls: Vec<(u64, WlKind, Vec<StageSpec>, bool)>, // id, kind, stages, leaf_stage
+    wls: Vec<WlPlan>,
     start: u64,
     end: Option<u64>,
     maxpal: u64,
@@ -876,6 +1241,34 @@ struct Plan {
 
 fn level(table: &BTreeMap<(usize, usize), u64>, mk: MinterKind, wk: WlKind) -> u64 {
     *table.get(&(mk.idx(), wl_idx(wk))).unwrap_or(&0)
+}
+
+impl S {
+    /// variants of this minter's ExecuteMsg the model has no operation for, and (variant, field) pairs of handled variants
+    /// carrying a field this check does not know
+    fn surface(&mut self, kind: MinterKind) -> (Vec<String>, Vec<(String, String)>) {
+        let root = self.schema_of(kind);
+        let mut others = vec![];
+        let mut extra = vec![];
+        for (name, payload) in schema_variants(&root) {
+            if HANDLED.contains(&name.as_str()) {
+                if let Some(props) = payload["properties"].as_object() {
+                    for f in props.keys() {
+                        if !known_fields(&name).contains(&f.as_str()) {
+                            extra.push((name.clone(), f.clone()));
+                        }
+                    }
+                }
+            } else {
+                others.push(name);
+            }
+        }
+        (others, extra)
+    }
+}
+
+fn newwl_line(w: &WlPlan, ml: u32, price: u128) -> String {
+    format!("newwl id={} kind={} admin=11 ml={ml} price={price} ls={} dk={} pad={} stages={}", w.id, wl_idx(w.kind), w.ls as u8, w.dk as u8, w.pad, fmt_stages(&w.stages))
 }
 
 fn gen_members(rng: &mut Rng, kind: WlKind) -> Vec<(u64, u32)> {
@@ -926,8 +1319,31 @@ fn pick_wl_kind(rng: &mut Rng, table: &BTreeMap<(usize, usize), u64>, mk: Minter
     }
 }
 
+fn gen_other(ses: &mut Session, sut: &mut S, rng: &mut Rng, mk: MinterKind) {
+    let (others, extra) = sut.surface(mk);
+    let sender = if rng.chance(1, 2) { ADMIN } else { *rng.pick(&BUYERS) };
+    if !extra.is_empty() && rng.chance(1, 2) {
+        let (v, f) = rng.pick(&extra).clone();
+        let funds = sut.current_price().unwrap_or(PUBLIC_PRICE);
+        let out = ses.step(sut, &format!("other sender={sender} v={v} with={f} funds={funds}"));
+        ses.mark(format!("other:{}:{v}+{f}:{}", mk.name(), &out[..2]));
+        return;
+    }
+    if others.is_empty() {
+        return;
+    }
+    // unknown variants first, and often
+    let unknown: Vec<String> = others.iter().filter(|v| !KNOWN_OTHER.contains(&v.as_str())).cloned().collect();
+    let v = if !unknown.is_empty() && rng.chance(2, 3) { rng.pick(&unknown).clone() } else { rng.pick(&others).clone() };
+    if v == "burn_remaining" && sender == ADMIN && !rng.chance(1, 4) {
+        return; // ends the sale: keep it rare
+    }
+    let out = ses.step(sut, &format!("other sender={sender} v={v} with=- funds=0"));
+    ses.mark(format!("other:{}:{v}:{}:{}", mk.name(), sender == ADMIN, &out[..2]));
+}
+
 fn scenario(ses: &mut Session, sut: &mut S, rng: &mut Rng, idx: u64, table: &BTreeMap<(usize, usize), u64>) {
-    let mk = ALL_MINTERS[(idx % 9) as usize];
+    let mk = ALL_MINTERS[(idx as usize) % C03_MINTERS];
     let t0 = GENESIS + 1_000_000_000 + rng.below(1000) * U;
     ses.begin_case(sut, &format!("case t0={t0} addrs={},{} sc={idx} mk={}", ADMIN, fmt_list(&BUYERS), mk.name()));
     let start = t0 + rng.range(30, 60) * U;
@@ -944,23 +1360,25 @@ fn scenario(ses: &mut Session, sut: &mut S, rng: &mut Rng, idx: u64, table: &BTr
         let kind = pick_wl_kind(rng, table, mk);
         let stages = gen_wl(rng, kind, t0 + 8 * U, start);
         let ls = kind == WlKind::TieredMerkle && rng.chance(1, 2);
+        let dk = is_merkle_wl(kind) && rng.chance(1, 2);
+        let pad = if rng.chance(1, 14) { *rng.pick(&[26u64, 101]) } else { 0 };
         let price = if rng.chance(1, 8) { 40_000_000u128 } else { 60_000_000 };
-        let line = format!("newwl id={id} kind={} admin=11 ml=10 price={price} ls={} stages={}", wl_idx(kind), ls as u8, fmt_stages(&stages));
-        let out = ses.step(sut, &line);
+        let wp = WlPlan { id, kind, stages, ls, dk, pad };
+        let out = ses.step(sut, &newwl_line(&wp, if pad > 0 { 400 } else { 10 }, price));
+        ses.mark(format!("newwl:{:?}:pad{}:{}", kind, pad, &out[..2]));
         if out.starts_with("ok") {
-            for s in &stages {
+            for s in &wp.stages {
                 plan.instants.push(s.start);
                 plan.instants.push(s.end);
             }
-            plan.wls.push((id, kind, stages, ls));
+            plan.wls.push(wp);
         }
-        ses.mark(format!("newwl:{:?}:{}", kind, &out[..2]));
     }
     plan.instants.sort();
     plan.instants.dedup();
     // sometimes let time pass first, so that the minter is created while a whitelist is active
     if rng.chance(1, 10) && !plan.wls.is_empty() {
-        let s = &plan.wls[0].2[0];
+        let s = &plan.wls[0].stages[0];
         ses.step(sut, &format!("t {}", s.start + 1));
     }
     // ---- create
@@ -968,14 +1386,15 @@ fn scenario(ses: &mut Session, sut: &mut S, rng: &mut Rng, idx: u64, table: &BTr
     let big = mk.is_vending() && rng.chance(1, 8);
     let ntok: Option<u64> = if no_cap { None } else if big { Some(*rng.pick(&[100u64, 101, 133, 134, 166])) } else { Some(rng.range(3, 9)) };
     let lim = rng.range(1, 3);
-    let wl0 = if with_wl { plan.wls[rng.below(plan.wls.len() as u64) as usize].0.to_string() } else { "-".into() };
+    let wl0 = if with_wl { plan.wls[rng.below(plan.wls.len() as u64) as usize].id.to_string() } else { "-".into() };
     let line = format!("create mk={} wl={wl0} lim={lim} ntok={} maxpal={maxpal} admin={ADMIN} start={start} end={}", mk.idx(), fmt_opt(&ntok), fmt_opt(&end));
     let out = ses.step(sut, &line);
-    let wl0k = plan.wls.iter().find(|w| w.0.to_string() == wl0).map(|w| format!("{:?}", w.1)).unwrap_or("none".into());
+    let wl0k = plan.wls.iter().find(|w| w.id.to_string() == wl0).map(|w| format!("{:?}", w.kind)).unwrap_or("none".into());
     ses.mark(format!("create:{}:{wl0k}:{}", mk.name(), &out[..2]));
     if !out.starts_with("ok") {
         // still exercise a couple of ops against the absent minter, then stop
         ses.step(sut, &format!("mint sender=21 funds={PUBLIC_PRICE} stage=- proof=- alloc=-"));
+        ses.step(sut, "purge sender=21 funds=0");
         ses.end_case();
         return;
     }
@@ -986,7 +1405,7 @@ fn scenario(ses: &mut Session, sut: &mut S, rng: &mut Rng, idx: u64, table: &BTr
         let now = sut.now();
         // nothing can be minted yet (no active whitelist, before the start): mostly move the clock instead
         let wl_active = sut.read_view(21, None, "-", None).act;
-        if (18..66).contains(&r) && now < start && !wl_active && rng.chance(4, 5) {
+        if (18..64).contains(&r) && now < start && !wl_active && rng.chance(4, 5) {
             r = 0;
         }
         // a whitelist window is open: stay in it a little longer
@@ -1006,9 +1425,13 @@ fn scenario(ses: &mut Session, sut: &mut S, rng: &mut Rng, idx: u64, table: &BTr
             };
             ses.step(sut, &format!("t {t}"));
             ses.count("clock");
-        } else if r < 66 {
+        } else if r < 64 {
             gen_mint(ses, sut, rng, &plan);
-        } else if r < 72 {
+            // same-block repeat by the same sender
+            if rng.chance(1, 4) {
+                gen_mint(ses, sut, rng, &plan);
+            }
+        } else if r < 70 {
             let sender = if rng.chance(4, 5) { ADMIN } else { *rng.pick(&BUYERS) };
             let to = *rng.pick(&BUYERS);
             let ap = sut.airdrop_price().unwrap_or(0);
@@ -1022,26 +1445,32 @@ fn scenario(ses: &mut Session, sut: &mut S, rng: &mut Rng, idx: u64, table: &BTr
                 ses.step(sut, &format!("mintto sender={sender} to={to} funds={funds}"))
             };
             ses.mark(format!("airdrop:{}:{}:{}", mk.name(), sender == ADMIN, &out[..2]));
-        } else if r < 80 {
+        } else if r < 78 {
             let sender = if rng.chance(5, 6) { ADMIN } else { *rng.pick(&BUYERS) };
             let n = rng.range(0, maxpal + 1);
             let funds = rng.chance(1, 15) as u8;
             let out = ses.step(sut, &format!("setlim sender={sender} n={n} funds={funds}"));
             ses.mark(format!("setlim:{}:{}:n{}:{}", mk.name(), sender == ADMIN, n.min(4), &out[..2]));
-        } else if r < 87 {
+        } else if r < 85 {
             if plan.wls.is_empty() {
                 continue;
             }
             let sender = if rng.chance(7, 8) { ADMIN } else { *rng.pick(&BUYERS) };
             let wl = &plan.wls[rng.below(plan.wls.len() as u64) as usize];
             let funds = rng.chance(1, 20) as u8;
-            let out = ses.step(sut, &format!("setwl sender={sender} wl={} funds={funds}", wl.0));
-            ses.mark(format!("setwl:{}:{:?}:{}:{}", mk.name(), wl.1, if now >= start { "started" } else { "before" }, &out[..2]));
-        } else if r < 96 {
+            let out = ses.step(sut, &format!("setwl sender={sender} wl={} funds={funds}", wl.id));
+            ses.mark(format!("setwl:{}:{:?}:{}:{}", mk.name(), wl.kind, if now >= start { "started" } else { "before" }, &out[..2]));
+        } else if r < 93 {
             if plan.wls.is_empty() {
                 continue;
             }
             gen_wlop(ses, sut, rng, &plan);
+        } else if r < 96 {
+            gen_other(ses, sut, rng, mk);
+        } else if r < 97 {
+            let sender = if rng.chance(2, 3) { ADMIN } else { *rng.pick(&BUYERS) };
+            let out = ses.step(sut, &format!("migrate sender={sender}"));
+            ses.mark(format!("migrate:{}:{}:{}", mk.name(), sender == ADMIN, &out[..2]));
         } else {
             let sender = *rng.pick(&BUYERS);
             let funds = rng.chance(1, 10) as u8;
@@ -1073,20 +1502,20 @@ fn scenario(ses: &mut Session, sut: &mut S, rng: &mut Rng, idx: u64, table: &BTr
 
 fn gen_wlop(ses: &mut Session, sut: &mut S, rng: &mut Rng, plan: &Plan) {
     let wl = &plan.wls[rng.below(plan.wls.len() as u64) as usize];
-    let (id, kind) = (wl.0, wl.1);
-    let j = rng.below(wl.2.len() as u64);
+    let (id, kind) = (wl.id, wl.kind);
+    let j = rng.below(wl.stages.len() as u64);
     let m = *rng.pick(&BUYERS);
     let line = match rng.below(7) {
         0 | 1 => format!("wlop wl={id} op=pal stage={j} n={}", rng.range(1, 3)),
         2 => format!("wlop wl={id} op=mcl stage={j} n={}", if rng.chance(1, 4) { "-".to_string() } else { rng.range(1, 4).to_string() }),
         3 => format!("wlop wl={id} op=add stage={j} m={m}.{}", rng.range(1, 3)),
         4 => format!("wlop wl={id} op=rm stage={j} m={m}.0"),
-        5 => format!("wlop wl={id} op=end stage={j} t={}", wl.2[j as usize].end + rng.range(1, 4) * U),
+        5 => format!("wlop wl={id} op=end stage={j} t={}", wl.stages[j as usize].end + rng.range(1, 4) * U),
         _ => {
             if rng.chance(1, 2) {
-                format!("wlop wl={id} op=rmstage stage={}", wl.2.len() - 1)
+                format!("wlop wl={id} op=rmstage stage={}", wl.stages.len() - 1)
             } else {
-                let last = wl.2.last().unwrap().end;
+                let last = wl.stages.last().unwrap().end;
                 format!("wlop wl={id} op=addstage s={} e={} pal={} mcl={} m={m}.{}", last + 20 * U, last + 26 * U, rng.range(1, 3), rng.range(1, 3), rng.range(1, 2))
             }
         }
@@ -1096,11 +1525,17 @@ fn gen_wlop(ses: &mut Session, sut: &mut S, rng: &mut Rng, plan: &Plan) {
 }
 
 fn gen_mint(ses: &mut Session, sut: &mut S, rng: &mut Rng, plan: &Plan) {
-    gen_mint_as(ses, sut, rng, plan, None)
+    gen_mint_x(ses, sut, rng, plan, None, None)
 }
 
-/// `who = Some(a)`: an honest, correctly funded mint attempt by `a` (its own leaf if it has one, no field mutation)
-fn gen_mint_as(ses: &mut Session, sut: &mut S, rng: &mut Rng, plan: &Plan, who: Option<u64>) {
+/// an honest, correctly funded mint attempt by `a` (its own leaf if it has one, no field mutation)
+fn gen_mint_as(ses: &mut Session, sut: &mut S, rng: &mut Rng, plan: &Plan, a: u64) {
+    gen_mint_x(ses, sut, rng, plan, Some(a), None)
+}
+
+/// `who = Some(a)`: correctly funded attempt by `a`; `force = Some(attack)`: exactly that field manipulation, else (honest) none.
+/// `who = None`: random sender, funds and up to two field mutations.
+fn gen_mint_x(ses: &mut Session, sut: &mut S, rng: &mut Rng, plan: &Plan, who: Option<u64>, force: Option<&'static str>) {
     let mk = plan.mk;
     let sender = match who { Some(a) => a, None => if rng.chance(1, 12) { ADMIN } else { *rng.pick(&BUYERS) } };
     let price = sut.current_price().unwrap_or(PUBLIC_PRICE);
@@ -1112,75 +1547,163 @@ fn gen_mint_as(ses: &mut Session, sut: &mut S, rng: &mut Rng, plan: &Plan, who: 
     };
     // which whitelist is attached, and which stage is active (read from the harness' own bookkeeping for generation only)
     let v = sut.read_view(sender, None, "-", None);
-    let att = v.attached.and_then(|k| plan.wls.iter().find(|w| w.0 == k));
+    let att = v.attached.and_then(|k| plan.wls.iter().find(|w| w.id == k));
     let (mut stage, mut proof, mut alloc): (Option<u64>, String, Option<u64>) = (None, "-".into(), None);
-    let mut cls = "nofields";
+    let mut cls: String = "nofields".into();
     if mk.is_merkle() {
-        if let Some((id, kind, stages, ls)) = att {
-            if is_merkle_wl(*kind) {
-                let j = if *kind == WlKind::TieredMerkle { v.sid.saturating_sub(1) as usize } else { 0 };
-                let st = &stages[j.min(stages.len() - 1)];
-                let mine = st.members.iter().position(|m| m.0 == sender);
-                match mine {
-                    Some(i) => {
-                        stage = if *ls { Some(j as u64 + 1) } else { None };
-                        alloc = if st.members[i].1 > 0 { Some(st.members[i].1 as u64) } else { None };
-                        proof = format!("p{id}.{j}.{i}");
-                        cls = "valid-leaf";
-                    }
-                    None => {
-                        // not in the tree: borrow somebody else's proof
-                        let i = rng.below(st.members.len() as u64) as usize;
-                        stage = if *ls { Some(j as u64 + 1) } else { None };
-                        alloc = if st.members[i].1 > 0 { Some(st.members[i].1 as u64) } else { None };
-                        proof = format!("p{id}.{j}.{i}");
-                        cls = "foreign-leaf";
+        if let Some(wp) = att {
+            if is_merkle_wl(wp.kind) {
+                let j = if wp.kind == WlKind::TieredMerkle { v.sid.saturating_sub(1) as usize } else { 0 };
+                let j = j.min(wp.stages.len() - 1);
+                let st = &wp.stages[j];
+                let lstage = if wp.ls { Some(j as u64 + 1) } else { None };
+                let mine = if force == Some("foreign-leaf") { None } else { st.members.iter().position(|m| m.0 == sender) };
+                let n_real = st.members.len() as u64 + if j == 0 { wp.pad } else { 0 };
+                let want_decoy = force == Some("decoy-leaf") || (who.is_none() && wp.dk && rng.chance(1, 10));
+                if want_decoy && wp.dk {
+                    // a leaf of the tree that is nobody's: `stage‖7` (or the bare stage number)
+                    let second = wp.ls && rng.chance(1, 3);
+                    stage = lstage;
+                    alloc = if second { None } else { Some(DECOY_ALLOC) };
+                    proof = format!("p{}.{j}.{}", wp.id, n_real + second as u64);
+                    cls = "decoy-leaf".into();
+                } else {
+                    match mine {
+                        Some(i) => {
+                            stage = lstage;
+                            alloc = if st.members[i].1 > 0 { Some(st.members[i].1 as u64) } else { None };
+                            proof = format!("p{}.{j}.{i}", wp.id);
+                            cls = "valid-leaf".into();
+                        }
+                        None => {
+                            // not in the tree (or told to): borrow somebody else's proof and allocation
+                            let others: Vec<usize> = (0..st.members.len()).filter(|i| st.members[*i].0 != sender).collect();
+                            if let Some(i) = if others.is_empty() { None } else { Some(*rng.pick(&others)) } {
+                                stage = lstage;
+                                alloc = if st.members[i].1 > 0 { Some(st.members[i].1 as u64) } else { None };
+                                proof = format!("p{}.{j}.{i}", wp.id);
+                                cls = "foreign-leaf".into();
+                            }
+                        }
                     }
                 }
             }
         }
-        // adversarial single-fault mutations of the message fields
-        match if who.is_some() { 15 } else { rng.below(16) } {
-            0 | 1 => {
-                alloc = Some(alloc.unwrap_or(0) + rng.range(1, 5));
-                cls = "raise-alloc";
+        // adversarial mutations of the message fields: one forced, or up to two random ones
+        let picks: Vec<u64> = match (who, force) {
+            (_, Some("raise-alloc")) => vec![0],
+            (_, Some("drop-alloc")) => vec![2],
+            (_, Some("other-stage")) => vec![3],
+            (_, Some("no-proof")) => vec![4],
+            (_, Some("junk-proof")) => vec![5],
+            (_, Some("alloc-no-proof")) => vec![6],
+            (Some(_), _) => vec![],
+            (None, _) => {
+                let mut p = vec![rng.below(16)];
+                if rng.chance(1, 3) {
+                    p.push(rng.below(7));
+                }
+                p
             }
-            2 => {
-                alloc = None;
-                cls = "drop-alloc";
-            }
-            3 => {
-                stage = Some(rng.range(0, 4));
-                cls = "other-stage";
-            }
-            4 => {
-                proof = "-".into();
-                cls = "no-proof";
-            }
-            5 => {
-                proof = (*rng.pick(&["e", "x", "y", "b"])).to_string();
-                cls = "junk-proof";
-            }
-            6 => {
-                alloc = Some(rng.range(1, 9));
-                proof = "-".into();
-                cls = "alloc-no-proof";
-            }
-            _ => {}
+        };
+        for (k, m) in picks.iter().enumerate() {
+            let name = match m {
+                0 | 1 => {
+                    alloc = Some(alloc.unwrap_or(0) + rng.range(1, 5));
+                    "raise-alloc"
+                }
+                2 => {
+                    alloc = None;
+                    "drop-alloc"
+                }
+                3 => {
+                    stage = Some(rng.range(0, 4));
+                    "other-stage"
+                }
+                4 => {
+                    proof = "-".into();
+                    "no-proof"
+                }
+                5 => {
+                    proof = (*rng.pick(&["e", "x", "y", "b"])).to_string();
+                    "junk-proof"
+                }
+                6 => {
+                    alloc = Some(rng.range(1, 9));
+                    proof = "-".into();
+                    "alloc-no-proof"
+                }
+                _ => continue,
+            };
+            cls = if k == 0 { name.to_string() } else { format!("{cls}+{name}") };
         }
-    } else if who.is_none() && rng.chance(1, 30) {
+    } else if force.is_some() || (who.is_none() && rng.chance(1, 30)) {
         alloc = Some(5);
-        cls = "unknown-field";
+        cls = "unknown-field".into();
     }
+    // ---- what the harness knows before the op (for the coverage-floor classes; never used by a monitor or a verdict)
+    let wl_phase = v.attached.is_some() && v.act;
+    let honest = who.is_some() && force.is_none();
+    let can = !sut.sold_out() && !sut.ended() && !sut.mon.purged;
+    let started = sut.now() >= sut.start_time();
+    let pub_before = *sut.mon.pub_mints.get(&sender).unwrap_or(&0);
+    let lim_before = sut.limit_in_force();
+    let ent = if wl_phase { sut.entitlement_in_force(&v, sender, false) } else { None };
+    let (n_before, stage_before) = match ent {
+        Some((w, s, _)) => (*sut.mon.wl_mints.get(&(w, s, sender)).unwrap_or(&0), *sut.mon.stage_mints.get(&(w, s)).unwrap_or(&0)),
+        None => (0, 0),
+    };
     let line = format!("mint sender={sender} funds={funds} stage={} proof={proof} alloc={}", fmt_opt(&stage), fmt_opt(&alloc));
     let out = ses.step(sut, &line);
-    let phase = if v.attached.is_some() && v.act { "wl" } else if sut.now() >= plan.start { "public" } else { "early" };
-    let wlk = att.map(|w| format!("{:?}", w.1)).unwrap_or("none".into());
+    let ok = out.starts_with("ok");
+    let phase = if wl_phase { "wl" } else if started { "public" } else { "early" };
+    let wlk = att.map(|w| format!("{:?}", w.kind)).unwrap_or("none".into());
     ses.mark(format!("mint:{}:{wlk}:{phase}:{cls}:{}", mk.name(), &out[..2]));
+    let name = mk.name();
+    if honest && can && funds == price {
+        if !wl_phase && started && sender != ADMIN {
+            if ok && pub_before + 1 == lim_before {
+                ses.mark(format!("req:pub:accept-last:{name}"));
+            }
+            if !ok && pub_before == lim_before {
+                ses.mark(format!("req:pub:reject-over:{name}"));
+            }
+        }
+        if let Some((_, sid, e)) = ent {
+            let room = v.slim.map(|l| stage_before < l).unwrap_or(true) || sid == 0;
+            if ok && n_before + 1 == e {
+                ses.mark(format!("req:wl:accept-last:{name}:{wlk}"));
+            }
+            if !ok && e >= 1 && n_before == e && room {
+                ses.mark(format!("req:wl:reject-over:{name}:{wlk}"));
+            }
+            if !ok && e == 0 {
+                ses.mark(format!("req:wl:reject-nonmember:{name}:{wlk}"));
+            }
+            if sid != 0 {
+                if ok && v.slim == Some(stage_before + 1) {
+                    ses.mark(format!("req:stage:accept-last:{name}:{wlk}"));
+                }
+                if !ok && n_before < e && !room {
+                    ses.mark(format!("req:stage:reject-full:{name}:{wlk}"));
+                }
+            }
+        }
+    }
+    if sut.mon.purged && !ok && funds == price {
+        ses.mark(format!("req:after-purge-refused:{name}"));
+    }
+    if wl_phase && att.map(|w| is_merkle_wl(w.kind)).unwrap_or(false) && funds == price && !ok {
+        for a in ["raise-alloc", "foreign-leaf", "decoy-leaf", "no-proof"] {
+            if cls == a {
+                ses.mark(format!("req:merkle:{a}-refused:{name}"));
+            }
+        }
+    }
     if funds != price {
         ses.count("mint:wrong-funds");
     }
-    let why = if out.starts_with("ok") {
+    let why = if ok {
         "ok"
     } else if funds != price {
         "funds"
@@ -1193,7 +1716,317 @@ fn gen_mint_as(ses: &mut Session, sut: &mut S, rng: &mut Rng, plan: &Plan, who: 
     };
     ses.count(&format!("mintwhy:{phase}:{why}"));
     ses.count(&format!("mint:{phase}:{wlk}:{}", &out[..2]));
-    ses.count(&format!("mintcls:{cls}:{phase}:{}", &out[..2]));
+    ses.count(&format!("mintcls:{}:{phase}:{}", cls.split('+').next().unwrap_or(""), &out[..2]));
+}
+
+fn burst(ses: &mut Session, sut: &mut S, rng: &mut Rng, plan: &Plan, order: &[u64], n: u64) {
+    for b in order {
+        // a block may hold several transactions of the same sender
+        for _ in 0..n {
+            gen_mint_as(ses, sut, rng, plan, *b);
+        }
+    }
+}
+
+fn step_to(ses: &mut Session, sut: &mut S, t: u64) -> bool {
+    if t <= sut.now() {
+        return false;
+    }
+    ses.step(sut, &format!("t {t}"));
+    true
+}
+
+/// everything the model has no operation for, sent by a stranger and by the admin, then a migrate, then one honest mint each
+fn poke_surface(ses: &mut Session, sut: &mut S, rng: &mut Rng, plan: &Plan) {
+    let mk = plan.mk;
+    let name = mk.name();
+    let (others, extra) = sut.surface(mk);
+    for v in &others {
+        if v == "burn_remaining" {
+            continue; // used to end the sale below
+        }
+        for sender in [BUYERS[0], ADMIN] {
+            let out = ses.step(sut, &format!("other sender={sender} v={v} with=- funds=0"));
+            ses.mark(format!("other:{name}:{v}:{}:{}", sender == ADMIN, &out[..2]));
+        }
+        if !KNOWN_OTHER.contains(&v.as_str()) {
+            ses.mark(format!("unknown-variant:{name}:{v}"));
+        }
+    }
+    for (v, f) in &extra {
+        let funds = sut.current_price().unwrap_or(PUBLIC_PRICE);
+        for sender in [BUYERS[0], ADMIN] {
+            let out = ses.step(sut, &format!("other sender={sender} v={v} with={f} funds={funds}"));
+            ses.mark(format!("other:{name}:{v}+{f}:{}", &out[..2]));
+        }
+        ses.mark(format!("unknown-field:{name}:{v}.{f}"));
+    }
+    ses.mark(format!("req:surface-poked:{name}"));
+    for sender in [BUYERS[1], ADMIN] {
+        let out = ses.step(sut, &format!("migrate sender={sender}"));
+        ses.mark(format!("migrate:{name}:{}:{}", sender == ADMIN, &out[..2]));
+        if sender == ADMIN && out.starts_with("ok") {
+            ses.mark(format!("req:migrate-ok:{name}"));
+        }
+    }
+    burst(ses, sut, rng, plan, &BUYERS, 1);
+}
+
+/// sell out / run past the end, purge, and try to mint and to airdrop afterwards
+fn end_game(ses: &mut Session, sut: &mut S, rng: &mut Rng, plan: &Plan) {
+    let mk = plan.mk;
+    let name = mk.name();
+    let out = ses.step(sut, &format!("purge sender={} funds=0", BUYERS[2]));
+    ses.mark(format!("purge-early:{name}:{}", &out[..2]));
+    // if that purge went through although the sale is still on, the cleared counters would let everybody start again
+    burst(ses, sut, rng, plan, &BUYERS, 1);
+    if mk.is_vending() {
+        ses.step(sut, &format!("other sender={ADMIN} v=burn_remaining with=- funds=0"));
+    } else if let Some(e) = plan.end {
+        step_to(ses, sut, e);
+        burst(ses, sut, rng, plan, &BUYERS[..1], 1);
+        let out = ses.step(sut, &format!("purge sender={} funds=0", BUYERS[2]));
+        ses.mark(format!("purge-at-end:{name}:{}", &out[..2]));
+        step_to(ses, sut, e + 1);
+    }
+    let out = ses.step(sut, &format!("purge sender={} funds=1", BUYERS[2]));
+    ses.mark(format!("purge-funds:{name}:{}", &out[..2]));
+    let out = ses.step(sut, &format!("purge sender={} funds=0", BUYERS[2]));
+    ses.mark(format!("purge-end:{name}:{}", &out[..2]));
+    if out.starts_with("ok") {
+        ses.mark(format!("req:purge-ok:{name}"));
+    }
+    burst(ses, sut, rng, plan, &BUYERS, 1);
+    let ap = sut.airdrop_price().unwrap_or(0);
+    ses.step(sut, &format!("mintto sender={ADMIN} to={} funds={ap}", BUYERS[3]));
+    // a second purge, and the counters it may and may not have cleared stay what they are
+    ses.step(sut, &format!("purge sender={} funds=0", BUYERS[0]));
+}
+
+/// Edges of a NON-tiered whitelist window and of the public sale, for every (minter, plain / flex / Merkle whitelist) pairing
+/// at level 2: at window start −1/0/+1 ns, window end −1/0/+1 ns and sale start −1/0/+1 ns every buyer (three members, one
+/// stranger) sends more correctly funded mints than it is entitled to, several per block; between two bursts of the same
+/// block the whitelist's limit / the minter's limit is raised and lowered, a member is added; Merkle pairings add the field
+/// attacks; then airdrops, every other message variant, a migrate, sell-out / end, purge and attempts after the purge.
+fn scenario_edges(ses: &mut Session, sut: &mut S, rng: &mut Rng, idx: u64, table: &BTreeMap<(usize, usize), u64>) {
+    let cands: Vec<(MinterKind, WlKind)> = ALL_MINTERS[..C03_MINTERS]
+        .iter()
+        .flat_map(|mk| [WlKind::Plain, WlKind::Flex, WlKind::Merkle].into_iter().filter(move |wk| level(table, *mk, *wk) == 2).map(move |wk| (*mk, wk)))
+        .collect();
+    if cands.is_empty() {
+        return;
+    }
+    let (mk, wk) = cands[(idx as usize) % cands.len()];
+    let round = idx / cands.len() as u64;
+    let name = mk.name();
+    let t0 = GENESIS + 1_000_000_000 + rng.below(1000) * U;
+    ses.begin_case(sut, &format!("case t0={t0} addrs={},{} sc=edges{idx} mk={}", ADMIN, fmt_list(&BUYERS), name));
+    let ws = t0 + 10 * U;
+    let we = ws + rng.range(4, 8) * U;
+    let start = match round % 3 { 0 => we, 1 => we + 3 * U, _ => we - 2 * U };
+    let pal = rng.range(1, 3) as u32;
+    let members: Vec<(u64, u32)> = BUYERS[..3]
+        .iter()
+        .enumerate()
+        .map(|(k, b)| (*b, if is_flex_wl(wk) { rng.range(1, 3) as u32 } else if is_merkle_wl(wk) && k > 0 { rng.range(1, 3) as u32 } else { 0 }))
+        .collect();
+    let max_ent = members.iter().map(|m| m.1).max().unwrap_or(0).max(pal) as u64;
+    let pad = if round % 4 == 3 { *rng.pick(&[26u64, 101]) } else { 0 };
+    let mut wp = WlPlan { id: 0, kind: wk, stages: vec![StageSpec { start: ws, end: we, pal, mcl: None, members }], ls: false, dk: is_merkle_wl(wk), pad };
+    let mut out = ses.step(sut, &newwl_line(&wp, if pad > 0 { 400 } else { 10 }, 60_000_000));
+    ses.mark(format!("edges:newwl:{:?}:pad{pad}:{}", wk, &out[..2]));
+    if !out.starts_with("ok") && pad > 0 {
+        wp.pad = 0;
+        out = ses.step(sut, &newwl_line(&wp, 10, 60_000_000));
+    }
+    let no_cap = mk.is_open_edition() && round % 2 == 1;
+    let end = if mk.is_open_edition() { Some(start.max(we) + 40 * U) } else { None };
+    let ntok: Option<u64> = if no_cap { None } else { Some(60) };
+    let lim = 2u64;
+    let out2 = ses.step(sut, &format!("create mk={} wl=0 lim={lim} ntok={} maxpal=5 admin={ADMIN} start={start} end={}", mk.idx(), fmt_opt(&ntok), fmt_opt(&end)));
+    ses.mark(format!("edges:create:{name}:{:?}:{}", wk, &out2[..2]));
+    if !out.starts_with("ok") || !out2.starts_with("ok") {
+        ses.end_case();
+        return;
+    }
+    ses.mark(format!("req:create-ok:{name}"));
+    let plan = Plan { mk, wls: vec![wp.clone()], start, end, maxpal: 5, instants: vec![] };
+    let mut order = BUYERS.to_vec();
+    if rng.chance(1, 2) {
+        order.reverse();
+    }
+    // A. the window opens
+    for t in [ws - 1, ws, ws + 1] {
+        if step_to(ses, sut, t) {
+            burst(ses, sut, rng, &plan, &order, max_ent + 2);
+        }
+    }
+    // B. an update between two calls of the same block
+    match wk {
+        WlKind::Plain => {
+            let o = ses.step(sut, &format!("wlop wl=0 op=pal stage=0 n={}", pal + 1));
+            ses.mark(format!("edges:pal-up:{name}:{}", &o[..2]));
+            burst(ses, sut, rng, &plan, &order, 2);
+            let o = ses.step(sut, "wlop wl=0 op=pal stage=0 n=1");
+            ses.mark(format!("edges:pal-down:{name}:{}", &o[..2]));
+            burst(ses, sut, rng, &plan, &order, 1);
+        }
+        WlKind::Flex => {
+            let o = ses.step(sut, &format!("wlop wl=0 op=add stage=0 m={}.2", BUYERS[3]));
+            ses.mark(format!("edges:flex-add:{name}:{}", &o[..2]));
+            burst(ses, sut, rng, &plan, &BUYERS[3..], 3);
+            // change a member's mint_count after it has minted: only possible as remove + add (refused once the window is open)
+            let c = wp.stages[0].members[0].1 + 1;
+            let o1 = ses.step(sut, &format!("wlop wl=0 op=rm stage=0 m={}.0", BUYERS[0]));
+            let o2 = ses.step(sut, &format!("wlop wl=0 op=add stage=0 m={}.{c}", BUYERS[0]));
+            ses.mark(format!("edges:flex-recount:{name}:{}{}", &o1[..2], &o2[..2]));
+            burst(ses, sut, rng, &plan, &BUYERS[..1], 2);
+        }
+        _ => {
+            for b in order.clone() {
+                for a in ["raise-alloc", "foreign-leaf", "decoy-leaf", "no-proof", "alloc-no-proof", "drop-alloc", "other-stage", "junk-proof"] {
+                    gen_mint_x(ses, sut, rng, &plan, Some(b), Some(a));
+                }
+            }
+        }
+    }
+    if !mk.is_merkle() {
+        gen_mint_x(ses, sut, rng, &plan, Some(BUYERS[1]), Some("unknown-field"));
+    }
+    // C. the window closes (and, when start < we, the public sale opens inside it)
+    let mut pts = vec![we - 1, we, we + 1, start - 1, start, start + 1];
+    pts.sort();
+    pts.dedup();
+    for t in pts {
+        if step_to(ses, sut, t) {
+            burst(ses, sut, rng, &plan, &order, if t + 1 >= start.max(we) { lim + 2 } else { 2 });
+        }
+    }
+    // D. public sale for sure: everybody up to the limit and beyond
+    step_to(ses, sut, start.max(we) + 2);
+    burst(ses, sut, rng, &plan, &order, lim + 2);
+    // E. the limit moves between two calls of the same block
+    let o = ses.step(sut, &format!("setlim sender={ADMIN} n=1 funds=0"));
+    ses.mark(format!("edges:setlim-down:{name}:{}", &o[..2]));
+    burst(ses, sut, rng, &plan, &order, 1);
+    let o = ses.step(sut, &format!("setlim sender={ADMIN} n=3 funds=0"));
+    if o.starts_with("ok") {
+        ses.mark(format!("req:setlim-ok:{name}"));
+    }
+    burst(ses, sut, rng, &plan, &order, 2);
+    for (s, n, f) in [(BUYERS[0], 3u64, 0u8), (ADMIN, 0, 0), (ADMIN, 6, 0), (ADMIN, 2, 1)] {
+        let o = ses.step(sut, &format!("setlim sender={s} n={n} funds={f}"));
+        ses.mark(format!("edges:setlim-bad:{name}:{}:{n}:{f}:{}", s == ADMIN, &o[..2]));
+    }
+    // F. airdrops: not limit-checked, land in the admin's count
+    let ap = sut.airdrop_price().unwrap_or(0);
+    for _ in 0..3 {
+        let o = ses.step(sut, &format!("mintto sender={ADMIN} to={} funds={ap}", BUYERS[3]));
+        if o.starts_with("ok") {
+            ses.mark(format!("req:airdrop-ok:{name}"));
+        }
+    }
+    let o = ses.step(sut, &format!("mintto sender={} to={} funds={ap}", BUYERS[0], BUYERS[0]));
+    ses.mark(format!("edges:airdrop-stranger:{name}:{}", &o[..2]));
+    if mk.is_vending() {
+        for id in [rng.range(1, 60), 0, 61] {
+            let o = ses.step(sut, &format!("mintfor sender={ADMIN} to={} id={id} funds={ap}", BUYERS[2]));
+            ses.mark(format!("edges:mintfor:{name}:{}", &o[..2]));
+        }
+    }
+    gen_mint_as(ses, sut, rng, &plan, ADMIN);
+    // G. the rest of the message surface, migrate
+    poke_surface(ses, sut, rng, &plan);
+    // H. the end
+    end_game(ses, sut, rng, &plan);
+    ses.end_case();
+}
+
+/// SetWhitelist between two whitelists of different tieredness while the counters are non-zero: mint on A up to the entitlement
+/// and beyond, swap to B after A's window (before the sale starts), mint on B across its stage edge, try to swap while B is
+/// active, swap back afterwards, then the public sale.
+fn scenario_swap(ses: &mut Session, sut: &mut S, rng: &mut Rng, idx: u64, table: &BTreeMap<(usize, usize), u64>) {
+    let mut cands: Vec<(MinterKind, WlKind, WlKind)> = vec![];
+    for mk in &ALL_MINTERS[..C03_MINTERS] {
+        let flat: Vec<WlKind> = [WlKind::Plain, WlKind::Flex, WlKind::Merkle].into_iter().filter(|k| level(table, *mk, *k) == 2).collect();
+        let tier: Vec<WlKind> = [WlKind::Tiered, WlKind::TieredFlex, WlKind::TieredMerkle].into_iter().filter(|k| level(table, *mk, *k) == 2).collect();
+        for a in &flat {
+            for b in &tier {
+                cands.push((*mk, *a, *b));
+                cands.push((*mk, *b, *a));
+            }
+        }
+    }
+    if cands.is_empty() {
+        return;
+    }
+    let (mk, ka, kb) = cands[(idx as usize) % cands.len()];
+    let name = mk.name();
+    let t0 = GENESIS + 1_000_000_000 + rng.below(1000) * U;
+    ses.begin_case(sut, &format!("case t0={t0} addrs={},{} sc=swap{idx} mk={}", ADMIN, fmt_list(&BUYERS), name));
+    let mk_stages = |k: WlKind, from: u64, rng: &mut Rng| -> Vec<StageSpec> {
+        let mem = |rng: &mut Rng| -> Vec<(u64, u32)> { BUYERS[..3].iter().map(|b| (*b, if is_flex_wl(k) { 2 } else if is_merkle_wl(k) { rng.range(0, 2) as u32 } else { 0 })).collect() };
+        if is_tiered(k) {
+            vec![
+                StageSpec { start: from, end: from + 3 * U, pal: 2, mcl: Some(5), members: mem(rng) },
+                StageSpec { start: from + 3 * U, end: from + 6 * U, pal: 1, mcl: None, members: mem(rng) },
+            ]
+        } else {
+            vec![StageSpec { start: from, end: from + 6 * U, pal: 2, mcl: None, members: mem(rng) }]
+        }
+    };
+    let (a_from, b_from) = (t0 + 10 * U, t0 + 22 * U);
+    let start = t0 + 34 * U;
+    let wa = WlPlan { id: 0, kind: ka, stages: mk_stages(ka, a_from, rng), ls: ka == WlKind::TieredMerkle && rng.chance(1, 2), dk: false, pad: 0 };
+    let wb = WlPlan { id: 1, kind: kb, stages: mk_stages(kb, b_from, rng), ls: kb == WlKind::TieredMerkle && rng.chance(1, 2), dk: false, pad: 0 };
+    let o1 = ses.step(sut, &newwl_line(&wa, 10, 60_000_000));
+    let o2 = ses.step(sut, &newwl_line(&wb, 10, 60_000_000));
+    let end = if mk.is_open_edition() { Some(start + 30 * U) } else { None };
+    let o3 = ses.step(sut, &format!("create mk={} wl=0 lim=2 ntok=50 maxpal=5 admin={ADMIN} start={start} end={}", mk.idx(), fmt_opt(&end)));
+    ses.mark(format!("swap:create:{name}:{:?}->{:?}:{}", ka, kb, &o3[..2]));
+    if !(o1.starts_with("ok") && o2.starts_with("ok") && o3.starts_with("ok")) {
+        ses.end_case();
+        return;
+    }
+    let plan = Plan { mk, wls: vec![wa.clone(), wb.clone()], start, end, maxpal: 5, instants: vec![] };
+    // on A
+    for t in [a_from, a_from + 3 * U - 1, a_from + 3 * U, a_from + 3 * U + 1] {
+        if step_to(ses, sut, t) {
+            burst(ses, sut, rng, &plan, &BUYERS, 3);
+        }
+    }
+    // swap while A is active: refused
+    let o = ses.step(sut, &format!("setwl sender={ADMIN} wl=1 funds=0"));
+    ses.mark(format!("swap:while-active:{name}:{}", &o[..2]));
+    step_to(ses, sut, a_from + 6 * U + 1);
+    let o = ses.step(sut, &format!("setwl sender={} wl=1 funds=0", BUYERS[0]));
+    ses.mark(format!("swap:stranger:{name}:{}", &o[..2]));
+    let o = ses.step(sut, &format!("setwl sender={ADMIN} wl=1 funds=1"));
+    ses.mark(format!("swap:funds:{name}:{}", &o[..2]));
+    let o = ses.step(sut, &format!("setwl sender={ADMIN} wl=1 funds=0"));
+    ses.mark(format!("swap:to-b:{name}:{:?}->{:?}:{}", ka, kb, &o[..2]));
+    let swapped = o.starts_with("ok");
+    // on B, with the counters A left behind
+    for t in [b_from - 1, b_from, b_from + 3 * U - 1, b_from + 3 * U, b_from + 3 * U + 1] {
+        if step_to(ses, sut, t) {
+            burst(ses, sut, rng, &plan, &BUYERS, 3);
+        }
+    }
+    let minted_on_b = sut.mon.wl_mints.keys().any(|k| k.0 == 1);
+    if swapped && minted_on_b {
+        ses.mark(format!("req:swap:{name}"));
+    }
+    step_to(ses, sut, b_from + 6 * U + 1);
+    let o = ses.step(sut, &format!("setwl sender={ADMIN} wl=0 funds=0"));
+    ses.mark(format!("swap:back:{name}:{}", &o[..2]));
+    for t in [start - 1, start, start + 1] {
+        if step_to(ses, sut, t) {
+            burst(ses, sut, rng, &plan, &BUYERS, 3);
+        }
+    }
+    let o = ses.step(sut, &format!("setwl sender={ADMIN} wl=1 funds=0"));
+    ses.mark(format!("swap:after-start:{name}:{}", &o[..2]));
+    ses.end_case();
 }
 
 /// Stage hand-over: a tiered whitelist whose stages touch exactly (`stage[k+1].start == stage[k].end`), with different
@@ -1202,7 +2035,7 @@ fn gen_mint_as(ses: &mut Session, sut: &mut S, rng: &mut Rng, plan: &Plan, who: 
 /// with each other, and the per-stage entitlement is what the property fixes.
 fn scenario_handover(ses: &mut Session, sut: &mut S, rng: &mut Rng, idx: u64, table: &BTreeMap<(usize, usize), u64>) {
     // minters that can mint through some tiered whitelist kind
-    let cands: Vec<(MinterKind, WlKind)> = ALL_MINTERS
+    let cands: Vec<(MinterKind, WlKind)> = ALL_MINTERS[..C03_MINTERS]
         .iter()
         .flat_map(|mk| [WlKind::Tiered, WlKind::TieredFlex, WlKind::TieredMerkle].into_iter().filter(move |wk| level(table, *mk, *wk) == 2).map(move |wk| (*mk, wk)))
         .collect();
@@ -1210,20 +2043,24 @@ fn scenario_handover(ses: &mut Session, sut: &mut S, rng: &mut Rng, idx: u64, ta
         return;
     }
     let (mk, wk) = cands[(idx as usize) % cands.len()];
+    let round = idx / cands.len() as u64;
+    // even rounds: a fixed shape that is sure to reach every boundary (2 stages, limits 2 then 1, disjoint members,
+    // first stage capped at 2 mints); odd rounds: random shapes
+    let fixed = round % 2 == 0;
     let t0 = GENESIS + 1_000_000_000 + rng.below(1000) * U;
     ses.begin_case(sut, &format!("case t0={t0} addrs={},{} sc=handover{idx} mk={}", ADMIN, fmt_list(&BUYERS), mk.name()));
-    let nst = rng.range(2, 3);
+    let nst = if fixed { 2 } else { rng.range(2, 3) };
     let mut stages = vec![];
     let mut t = t0 + 10 * U;
     // limits: strictly decreasing, strictly increasing or random — the decreasing shape is the dangerous one
-    let shape = rng.below(3);
+    let shape = if fixed { 0 } else { rng.below(3) };
     for j in 0..nst {
         let e = t + rng.range(2, 6) * U;
         let pal = match shape { 0 => (nst - j) as u32, 1 => (j + 1) as u32, _ => rng.range(1, 3) as u32 };
         // member sets: mostly disjoint across stages (buyer j+1.. only), sometimes overlapping
         let mut members: Vec<(u64, u32)> = vec![];
         for (k, b) in BUYERS.iter().enumerate() {
-            let inside = if rng.chance(1, 5) { rng.chance(1, 2) } else { (k as u64) % nst == j };
+            let inside = if !fixed && rng.chance(1, 5) { rng.chance(1, 2) } else { (k as u64) % nst == j };
             if inside {
                 let cnt = if is_flex_wl(wk) { pal } else if is_merkle_wl(wk) && rng.chance(1, 2) { pal } else { 0 };
                 members.push((*b, cnt));
@@ -1232,27 +2069,27 @@ fn scenario_handover(ses: &mut Session, sut: &mut S, rng: &mut Rng, idx: u64, ta
         if members.is_empty() {
             members.push((BUYERS[j as usize % 4], if is_flex_wl(wk) { pal } else { 0 }));
         }
-        stages.push(StageSpec { start: t, end: e, pal, mcl: if rng.chance(1, 4) { Some(rng.range(2, 5) as u32) } else { None }, members });
+        let mcl = if fixed { if j == 0 { Some(2) } else { None } } else if rng.chance(1, 4) { Some(rng.range(2, 5) as u32) } else { None };
+        stages.push(StageSpec { start: t, end: e, pal, mcl, members });
         t = e; // exactly contiguous
     }
     let start = t + rng.range(0, 3) * U; // the public sale starts at or after the last stage end
     let ls = wk == WlKind::TieredMerkle && rng.chance(1, 2);
-    let out = ses.step(sut, &format!("newwl id=0 kind={} admin=11 ml=10 price=60000000 ls={} stages={}", wl_idx(wk), ls as u8, fmt_stages(&stages)));
+    let wp = WlPlan { id: 0, kind: wk, stages: stages.clone(), ls, dk: wk == WlKind::TieredMerkle && rng.chance(1, 2), pad: 0 };
+    let out = ses.step(sut, &newwl_line(&wp, 10, 60_000_000));
     ses.mark(format!("handover:newwl:{:?}:{}", wk, &out[..2]));
     let end = if mk.is_open_edition() { Some(start + 40 * U) } else { None };
-    let ntok: Option<u64> = Some(rng.range(10, 14));
+    let ntok: Option<u64> = Some(rng.range(20, 24));
     let out = ses.step(sut, &format!("create mk={} wl=0 lim=3 ntok={} maxpal=5 admin={ADMIN} start={start} end={}", mk.idx(), fmt_opt(&ntok), fmt_opt(&end)));
     ses.mark(format!("handover:create:{}:{:?}:{}", mk.name(), wk, &out[..2]));
     if !out.starts_with("ok") {
         ses.end_case();
         return;
     }
-    let mut instants = vec![start];
-    let plan = Plan { mk, wls: vec![(0, wk, stages.clone(), ls)], start, end, maxpal: 5, instants: instants.clone() };
+    let plan = Plan { mk, wls: vec![wp], start, end, maxpal: 5, instants: vec![start] };
     let mut edges: Vec<u64> = stages.iter().flat_map(|s| [s.start, s.end]).collect();
     edges.sort();
     edges.dedup();
-    instants.extend(edges.iter().copied());
     for e in edges {
         for t in [e - 1, e, e + 1] {
             if t <= sut.now() {
@@ -1264,10 +2101,16 @@ fn scenario_handover(ses: &mut Session, sut: &mut S, rng: &mut Rng, idx: u64, ta
             for b in order {
                 // a block may hold several transactions of the same sender: try to out-mint every stage's limit
                 for _ in 0..rng.range(2, 4) {
-                    gen_mint_as(ses, sut, rng, &plan, Some(b));
+                    gen_mint_as(ses, sut, rng, &plan, b);
                 }
             }
             ses.mark(format!("handover:edge:{}:{:?}:{}", mk.name(), wk, if t < e { "before" } else if t == e { "at" } else { "after" }));
+        }
+        // a whitelist-side limit update in the middle of the hand-over (same block as the mints before and after it)
+        if !fixed && rng.chance(1, 3) && wk != WlKind::TieredMerkle {
+            let j = rng.below(nst);
+            ses.step(sut, &format!("wlop wl=0 op=pal stage={j} n={}", rng.range(1, 3)));
+            burst(ses, sut, rng, &plan, &BUYERS, 2);
         }
     }
     ses.end_case();
@@ -1282,7 +2125,7 @@ fn corpus_self_raise(ses: &mut Session, sut: &mut S, mk: MinterKind, wk: WlKind)
         fmt_stages(&[StageSpec { start: t0 + 10 * U, end: t0 + 20 * U, pal: 1, mcl: None, members: vec![(21, 1), (22, 1)] }])
     };
     ses.begin_case(sut, &format!("case t0={t0} addrs={},{} corpus=self-raise mk={}", ADMIN, fmt_list(&BUYERS), mk.name()));
-    ses.step(sut, &format!("newwl id=0 kind={} admin=11 ml=10 price=60000000 ls=0 stages={stages}", wl_idx(wk)));
+    ses.step(sut, &format!("newwl id=0 kind={} admin=11 ml=10 price=60000000 ls=0 dk=0 pad=0 stages={stages}", wl_idx(wk)));
     ses.step(sut, &format!("create mk={} wl=0 lim=2 ntok=9 maxpal=5 admin={ADMIN} start={} end={}", mk.idx(), t0 + 40 * U, if mk.is_open_edition() { (t0 + 90 * U).to_string() } else { "-".into() }));
     ses.step(sut, &format!("t {}", t0 + 10 * U));
     for _ in 0..3 {
@@ -1304,6 +2147,32 @@ fn main() {
         ses.finish(&mut sut);
     }
     let mut rng = ses.rng.fork();
+
+    // 0. the message surface of the nine minters, enumerated at run time from the crates' own JSON schemas
+    let mut unknown = vec![];
+    for mk in &ALL_MINTERS[..C03_MINTERS] {
+        let (others, extra) = sut.surface(*mk);
+        let root = sut.schema_of(*mk);
+        let all: Vec<String> = schema_variants(&root).into_iter().map(|v| v.0).collect();
+        for h in HANDLED {
+            if !all.iter().any(|v| v == h) && !(h == "mint_for" && mk.is_open_edition()) {
+                unknown.push(format!("{}: handled variant `{h}` is gone", mk.name()));
+            }
+        }
+        for v in others {
+            if !KNOWN_OTHER.contains(&v.as_str()) {
+                unknown.push(format!("{}: unknown variant `{v}`", mk.name()));
+            }
+        }
+        for (v, f) in extra {
+            unknown.push(format!("{}: unknown field `{f}` of `{v}`", mk.name()));
+        }
+        ses.mark(format!("surface:{}:{}", mk.name(), all.len()));
+    }
+    ses.note(format!(
+        "ExecuteMsg surface enumerated from schema_for!(ExecuteMsg) of the 9 minter crates; variants the model has no op for are sent as `other` ops (model: env, nothing C03 owns may move). Unknown to this check: {}",
+        if unknown.is_empty() { "none".to_string() } else { unknown.join("; ") }
+    ));
 
     // 1. discover the pairing table on the real contracts; the model's `compatible` must answer the same
     ses.begin_case(&mut sut, "case compat-table");
@@ -1328,14 +2197,49 @@ fn main() {
         }
     }
 
-    // 3. generated scenarios
-    let n = ses.scale(400, 20000);
+    // 3. directed scenarios (every level-2 pairing, fixed shapes first) and random scenarios
+    let n_edges = ses.scale(33, 550);
+    for i in 0..n_edges {
+        scenario_edges(&mut ses, &mut sut, &mut rng, i, &table);
+    }
+    let n_swap = ses.scale(36, 450);
+    for i in 0..n_swap {
+        scenario_swap(&mut ses, &mut sut, &mut rng, i, &table);
+    }
+    let n = ses.scale(300, 8000);
     for i in 0..n {
         scenario(&mut ses, &mut sut, &mut rng, i, &table);
         if i % 5 == 0 {
             scenario_handover(&mut ses, &mut sut, &mut rng, i / 5, &table);
         }
     }
+
+    // 4. coverage floor: without these the run would be vacuous (for every seed, in every tier)
+    for mk in &ALL_MINTERS[..C03_MINTERS] {
+        let name = mk.name();
+        for c in ["create-ok", "pub:accept-last", "pub:reject-over", "setlim-ok", "airdrop-ok", "purge-ok", "after-purge-refused", "surface-poked", "migrate-ok", "swap"] {
+            ses.require(format!("req:{c}:{name}"));
+        }
+        for wk in ALL_WL {
+            if level(&table, *mk, wk) == 2 {
+                for c in ["wl:accept-last", "wl:reject-over", "wl:reject-nonmember"] {
+                    ses.require(format!("req:{c}:{name}:{:?}", wk));
+                }
+                if is_tiered(wk) {
+                    ses.require(format!("req:stage:reject-full:{name}:{:?}", wk));
+                    ses.require(format!("req:stage:accept-last:{name}:{:?}", wk));
+                    ses.require(format!("handover:edge:{name}:{:?}:at", wk));
+                }
+            }
+        }
+        if mk.is_merkle() {
+            for a in ["raise-alloc", "foreign-leaf", "decoy-leaf", "no-proof"] {
+                ses.require(format!("req:merkle:{a}-refused:{name}"));
+            }
+        }
+    }
+    ses.require("compat:");
+
     if std::env::var("C03_DUMP").is_ok() {
         let mut out = String::new();
         for c in &ses.cases {
@@ -1345,7 +2249,8 @@ fn main() {
         }
         std::fs::write(ses.args.out.join("trace.txt"), out).ok();
     }
-    ses.note("buyers 21..24 + admin 10; limits 1..3 (max_per_address_limit 3..5); whitelist windows before / straddling the minter start; clock steps to every stage edge, start and end at -1/0/+1 ns; Merkle trees built with rs_merkle (sorted-pair sha256 / blake3-16), leaves stage‖sender‖allocation");
+    ses.note("buyers 21..24 + admin 10; limits 1..3 (max_per_address_limit 3..5); whitelist windows before / straddling the minter start; clock steps to every stage edge, start and end at -1/0/+1 ns; Merkle trees built with rs_merkle (sorted-pair sha256 / blake3-16), leaves stage‖sender‖allocation (+ decoy leaves `stage‖7`, `stage` that are nobody's); member lists padded to 26 / 101 entries in some cases");
     ses.note(format!("tiered-whitelist mints at which the active-stage view and the booked stage's own record named different entitlements: {} (expected 0 on a coherent whitelist; the over-entitlement monitor always uses the booked stage's own record)", sut.mon_incoherent));
+    ses.note(format!("whitelist mints at which the whitelist's answers granted more than the harness ever sent to that whitelist: {} (expected 0; the monitor uses the smaller value)", sut.mon_ghost_tighter));
     ses.finish(&mut sut);
 }
